@@ -165,28 +165,28 @@ pub proof fn lemma_enum_r_all(s: Seq<&String>, names: Set<Seq<char>>)
 }
 
 
-/// the loop `for name in temp_names { local_vars.insert(name, line); }` after n rounds over the enumeration s of nm
+/// the loop `for name in temp_names { Self::bind_local(local_vars, name, line); }` after n rounds over the enumeration s of nm
 pub open spec fn bind_inv(s: Seq<String>, n: int, nm: Set<Seq<char>>, m1: Map<Seq<char>, usize>, m: Map<Seq<char>, usize>, line: usize) -> bool {
     &&& is_enum(s, nm)
     &&& 0 <= n <= s.len()
-    &&& m == bind_all(m1, prefix_names(s, n), line)
-    &&& (n == s.len() ==> m == bind_all(m1, nm, line))
+    &&& m == bind_min(m1, prefix_names(s, n), line)
+    &&& (n == s.len() ==> m == bind_min(m1, nm, line))
 }
 //@tags C17
 pub proof fn lemma_bind_start(nm: Set<Seq<char>>, m1: Map<Seq<char>, usize>, line: usize)
     ensures forall|s: Seq<String>| is_enum(s, nm) ==> #[trigger] bind_inv(s, 0, nm, m1, m1, line),
 {
     assert forall|s: Seq<String>| is_enum(s, nm) implies #[trigger] bind_inv(s, 0, nm, m1, m1, line) by {
-        lemma_bind_all_empty(m1, line);
+        lemma_bind_min_empty(m1, line);
         if s.len() == 0 { lemma_enum_all(s, nm); }
     }
 }
 //@tags C17
 pub proof fn lemma_bind_step(s: Seq<String>, n: int, nm: Set<Seq<char>>, m1: Map<Seq<char>, usize>, m: Map<Seq<char>, usize>, line: usize)
     requires bind_inv(s, n, nm, m1, m, line), n < s.len(),
-    ensures bind_inv(s, n + 1, nm, m1, m.insert(s[n]@, line), line),
+    ensures bind_inv(s, n + 1, nm, m1, min_bind(m, s[n]@, line), line),
 {
-    lemma_bind_all_insert(m1, prefix_names(s, n), s[n]@, line);
+    lemma_bind_min_step(m1, prefix_names(s, n), s[n]@, line);
     if n + 1 == s.len() { lemma_enum_all(s, nm); }
 }
 
@@ -252,13 +252,13 @@ impl FixtureDatabase {
 @after visit_expr_for_names 1
     proof { lemma_und_trans(*old(self), s0, *self, f, acc, scan_expr(*call.func, c)); acc = acc + scan_expr(*call.func, c); }
 @before for 1
-    let ghost b0 = acc;
-    proof { assert(b0 + scan_exprs(call.args@, 0, c) =~= b0); }
+    let ghost b1 = acc;
+    proof { assert(b1 + scan_exprs(call.args@, 0, c) =~= b1); }
 @loopvar 1 it1
 @loop 1
     invariant is_line_index(ints(ctx.line_index@)), f == pbv(ctx.file_path), c == ctxv(ctx, old(self).defs()),
         it1.seq() == call.args@.as_ref(), *expr == Expr::Call(*call),
-        acc == b0 + scan_exprs(call.args@, it1.index@ as int, c),
+        acc == b1 + scan_exprs(call.args@, it1.index@ as int, c),
         same_rest(*old(self), *self), und_rel(*old(self), *self, f, acc),
 @loopstart 1
     let ghost i = it1.index@ as int;
@@ -267,104 +267,204 @@ impl FixtureDatabase {
 @loopend 1
     proof {
         lemma_und_trans(*old(self), s0, *self, f, acc, scan_expr(*arg, c));
-        assert((b0 + scan_exprs(call.args@, i, c)) + scan_expr(*arg, c) =~= b0 + scan_exprs(call.args@, i + 1, c));
+        assert((b1 + scan_exprs(call.args@, i, c)) + scan_expr(*arg, c) =~= b1 + scan_exprs(call.args@, i + 1, c));
         acc = acc + scan_expr(*arg, c);
     }
-@after for 1
-    proof { assert(acc == scan_expr(*expr, c)); }
-@before visit_expr_for_names 4
-    let ghost s0 = *self;
-@after visit_expr_for_names 4
-    proof { lemma_und_trans(*old(self), s0, *self, f, acc, scan_expr(*binop.left, c)); acc = acc + scan_expr(*binop.left, c); }
-@before visit_expr_for_names 5
-    let ghost s0 = *self;
-@after visit_expr_for_names 5
-    proof { lemma_und_trans(*old(self), s0, *self, f, acc, scan_expr(*binop.right, c)); acc = acc + scan_expr(*binop.right, c);
-        assert(acc =~= scan_expr(*expr, c)); }
-@before visit_expr_for_names 7
-    let ghost s0 = *self;
-@after visit_expr_for_names 7
-    proof { lemma_und_trans(*old(self), s0, *self, f, acc, scan_expr(*compare.left, c)); acc = acc + scan_expr(*compare.left, c); }
 @before for 2
-    let ghost b0 = acc;
-    proof { assert(b0 + scan_exprs(compare.comparators@, 0, c) =~= b0); }
+    let ghost b2 = acc;
+    proof { assert(b2 + scan_kws(call.keywords@, 0, c) =~= b2); }
 @loopvar 2 it2
 @loop 2
     invariant is_line_index(ints(ctx.line_index@)), f == pbv(ctx.file_path), c == ctxv(ctx, old(self).defs()),
-        it2.seq() == compare.comparators@.as_ref(), *expr == Expr::Compare(*compare),
-        acc == b0 + scan_exprs(compare.comparators@, it2.index@ as int, c),
+        it2.seq() == call.keywords@.as_ref(), *expr == Expr::Call(*call),
+        acc == b2 + scan_kws(call.keywords@, it2.index@ as int, c),
         same_rest(*old(self), *self), und_rel(*old(self), *self, f, acc),
 @loopstart 2
     let ghost i = it2.index@ as int;
     let ghost s0 = *self;
-    proof { assert(*comparator == compare.comparators@[i]); assert(decreases_to!(compare.comparators => compare.comparators@[i])); assert(match *expr { Expr::Compare(y) => y == *compare, _ => false }); }
+    proof { assert(*keyword == call.keywords@[i]); assert(decreases_to!(call.keywords => call.keywords@[i])); assert(match *expr { Expr::Call(y) => y == *call, _ => false }); }
 @loopend 2
     proof {
-        lemma_und_trans(*old(self), s0, *self, f, acc, scan_expr(*comparator, c));
-        assert((b0 + scan_exprs(compare.comparators@, i, c)) + scan_expr(*comparator, c) =~= b0 + scan_exprs(compare.comparators@, i + 1, c));
-        acc = acc + scan_expr(*comparator, c);
+        lemma_und_trans(*old(self), s0, *self, f, acc, scan_expr(keyword.value, c));
+        assert((b2 + scan_kws(call.keywords@, i, c)) + scan_expr(keyword.value, c) =~= b2 + scan_kws(call.keywords@, i + 1, c));
+        acc = acc + scan_expr(keyword.value, c);
     }
 @after for 2
-    proof { assert(acc == scan_expr(*expr, c)); }
-@before visit_expr_for_names 9
-    let ghost s0 = *self;
-@after visit_expr_for_names 9
-    proof { lemma_und_trans(*old(self), s0, *self, f, acc, scan_expr(*subscript.value, c)); acc = acc + scan_expr(*subscript.value, c); }
-@before visit_expr_for_names 10
-    let ghost s0 = *self;
-@after visit_expr_for_names 10
-    proof { lemma_und_trans(*old(self), s0, *self, f, acc, scan_expr(*subscript.slice, c)); acc = acc + scan_expr(*subscript.slice, c);
-        assert(acc =~= scan_expr(*expr, c)); }
+    proof { assert(acc =~= scan_expr(*expr, c)); }
 @before for 3
-    proof { assert(acc =~= scan_exprs(list.elts@, 0, c)); }
+    let ghost b3 = acc;
+    proof { assert(b3 + scan_exprs(boolop.values@, 0, c) =~= b3); }
 @loopvar 3 it3
 @loop 3
     invariant is_line_index(ints(ctx.line_index@)), f == pbv(ctx.file_path), c == ctxv(ctx, old(self).defs()),
-        it3.seq() == list.elts@.as_ref(), *expr == Expr::List(*list),
-        acc == scan_exprs(list.elts@, it3.index@ as int, c),
+        it3.seq() == boolop.values@.as_ref(), *expr == Expr::BoolOp(*boolop),
+        acc == b3 + scan_exprs(boolop.values@, it3.index@ as int, c),
         same_rest(*old(self), *self), und_rel(*old(self), *self, f, acc),
 @loopstart 3
     let ghost i = it3.index@ as int;
     let ghost s0 = *self;
-    proof { assert(*elt == list.elts@[i]); assert(decreases_to!(list.elts => list.elts@[i])); assert(match *expr { Expr::List(y) => y == *list, _ => false }); }
+    proof { assert(*value == boolop.values@[i]); assert(decreases_to!(boolop.values => boolop.values@[i])); assert(match *expr { Expr::BoolOp(y) => y == *boolop, _ => false }); }
 @loopend 3
     proof {
-        lemma_und_trans(*old(self), s0, *self, f, acc, scan_expr(*elt, c));
-        acc = acc + scan_expr(*elt, c);
+        lemma_und_trans(*old(self), s0, *self, f, acc, scan_expr(*value, c));
+        assert((b3 + scan_exprs(boolop.values@, i, c)) + scan_expr(*value, c) =~= b3 + scan_exprs(boolop.values@, i + 1, c));
+        acc = acc + scan_expr(*value, c);
     }
 @after for 3
-    proof { assert(acc == scan_expr(*expr, c)); }
+    proof { assert(acc =~= scan_expr(*expr, c)); }
+@before visit_expr_for_names 6
+    let ghost s0 = *self;
+@after visit_expr_for_names 6
+    proof { lemma_und_trans(*old(self), s0, *self, f, acc, scan_expr(*ifexp.test, c)); acc = acc + scan_expr(*ifexp.test, c); }
+@before visit_expr_for_names 7
+    let ghost s0 = *self;
+@after visit_expr_for_names 7
+    proof { lemma_und_trans(*old(self), s0, *self, f, acc, scan_expr(*ifexp.body, c)); acc = acc + scan_expr(*ifexp.body, c); }
+@before visit_expr_for_names 8
+    let ghost s0 = *self;
+@after visit_expr_for_names 8
+    proof { lemma_und_trans(*old(self), s0, *self, f, acc, scan_expr(*ifexp.orelse, c)); acc = acc + scan_expr(*ifexp.orelse, c);
+        assert(acc =~= scan_expr(*expr, c)); }
 @before for 4
-    proof { assert(acc =~= scan_exprs(tuple.elts@, 0, c)); }
+    let ghost b4 = acc;
+    proof { assert(b4 + scan_exprs(set.elts@, 0, c) =~= b4); }
 @loopvar 4 it4
 @loop 4
     invariant is_line_index(ints(ctx.line_index@)), f == pbv(ctx.file_path), c == ctxv(ctx, old(self).defs()),
-        it4.seq() == tuple.elts@.as_ref(), *expr == Expr::Tuple(*tuple),
-        acc == scan_exprs(tuple.elts@, it4.index@ as int, c),
+        it4.seq() == set.elts@.as_ref(), *expr == Expr::Set(*set),
+        acc == b4 + scan_exprs(set.elts@, it4.index@ as int, c),
         same_rest(*old(self), *self), und_rel(*old(self), *self, f, acc),
 @loopstart 4
     let ghost i = it4.index@ as int;
     let ghost s0 = *self;
-    proof { assert(*elt == tuple.elts@[i]); assert(decreases_to!(tuple.elts => tuple.elts@[i])); assert(match *expr { Expr::Tuple(y) => y == *tuple, _ => false }); }
+    proof { assert(*elt == set.elts@[i]); assert(decreases_to!(set.elts => set.elts@[i])); assert(match *expr { Expr::Set(y) => y == *set, _ => false }); }
 @loopend 4
     proof {
         lemma_und_trans(*old(self), s0, *self, f, acc, scan_expr(*elt, c));
+        assert((b4 + scan_exprs(set.elts@, i, c)) + scan_expr(*elt, c) =~= b4 + scan_exprs(set.elts@, i + 1, c));
         acc = acc + scan_expr(*elt, c);
     }
 @after for 4
-    proof { assert(acc == scan_expr(*expr, c)); }
+    proof { assert(acc =~= scan_expr(*expr, c)); }
+@before lower 1
+    let ghost s0 = *self;
+@after lower 1
+    proof {
+        if slice.lower is None { lemma_und_refl(s0, f); }
+        lemma_und_trans(*old(self), s0, *self, f, acc, scan_opt(slice.lower, c)); acc = acc + scan_opt(slice.lower, c);
+    }
+@before upper 1
+    let ghost s0 = *self;
+@after upper 1
+    proof {
+        if slice.upper is None { lemma_und_refl(s0, f); }
+        lemma_und_trans(*old(self), s0, *self, f, acc, scan_opt(slice.upper, c)); acc = acc + scan_opt(slice.upper, c);
+    }
+@before step 1
+    let ghost s0 = *self;
+@after step 1
+    proof {
+        if slice.step is None { lemma_und_refl(s0, f); }
+        lemma_und_trans(*old(self), s0, *self, f, acc, scan_opt(slice.step, c)); acc = acc + scan_opt(slice.step, c);
+        assert(acc =~= scan_expr(*expr, c));
+    }
+@before visit_expr_for_names 14
+    let ghost s0 = *self;
+@after visit_expr_for_names 14
+    proof { lemma_und_trans(*old(self), s0, *self, f, acc, scan_expr(*binop.left, c)); acc = acc + scan_expr(*binop.left, c); }
+@before visit_expr_for_names 15
+    let ghost s0 = *self;
+@after visit_expr_for_names 15
+    proof { lemma_und_trans(*old(self), s0, *self, f, acc, scan_expr(*binop.right, c)); acc = acc + scan_expr(*binop.right, c);
+        assert(acc =~= scan_expr(*expr, c)); }
+@before visit_expr_for_names 17
+    let ghost s0 = *self;
+@after visit_expr_for_names 17
+    proof { lemma_und_trans(*old(self), s0, *self, f, acc, scan_expr(*compare.left, c)); acc = acc + scan_expr(*compare.left, c); }
 @before for 5
-    let ghost ks = dict.keys@;
-    let ghost kr = somes_ref(ks.as_ref(), ks.len() as int);
-    proof { assert(acc =~= scan_refs(kr, 0, c)); }
+    let ghost b5 = acc;
+    proof { assert(b5 + scan_exprs(compare.comparators@, 0, c) =~= b5); }
 @loopvar 5 it5
 @loop 5
     invariant is_line_index(ints(ctx.line_index@)), f == pbv(ctx.file_path), c == ctxv(ctx, old(self).defs()),
-        ks == dict.keys@, kr == somes_ref(ks.as_ref(), ks.len() as int), it5.seq() == kr, *expr == Expr::Dict(*dict),
-        acc == scan_refs(kr, it5.index@ as int, c),
+        it5.seq() == compare.comparators@.as_ref(), *expr == Expr::Compare(*compare),
+        acc == b5 + scan_exprs(compare.comparators@, it5.index@ as int, c),
         same_rest(*old(self), *self), und_rel(*old(self), *self, f, acc),
 @loopstart 5
     let ghost i = it5.index@ as int;
+    let ghost s0 = *self;
+    proof { assert(*comparator == compare.comparators@[i]); assert(decreases_to!(compare.comparators => compare.comparators@[i])); assert(match *expr { Expr::Compare(y) => y == *compare, _ => false }); }
+@loopend 5
+    proof {
+        lemma_und_trans(*old(self), s0, *self, f, acc, scan_expr(*comparator, c));
+        assert((b5 + scan_exprs(compare.comparators@, i, c)) + scan_expr(*comparator, c) =~= b5 + scan_exprs(compare.comparators@, i + 1, c));
+        acc = acc + scan_expr(*comparator, c);
+    }
+@after for 5
+    proof { assert(acc =~= scan_expr(*expr, c)); }
+@before visit_expr_for_names 19
+    let ghost s0 = *self;
+@after visit_expr_for_names 19
+    proof { lemma_und_trans(*old(self), s0, *self, f, acc, scan_expr(*subscript.value, c)); acc = acc + scan_expr(*subscript.value, c); }
+@before visit_expr_for_names 20
+    let ghost s0 = *self;
+@after visit_expr_for_names 20
+    proof { lemma_und_trans(*old(self), s0, *self, f, acc, scan_expr(*subscript.slice, c)); acc = acc + scan_expr(*subscript.slice, c);
+        assert(acc =~= scan_expr(*expr, c)); }
+@before for 6
+    let ghost b6 = acc;
+    proof { assert(b6 + scan_exprs(list.elts@, 0, c) =~= b6); }
+@loopvar 6 it6
+@loop 6
+    invariant is_line_index(ints(ctx.line_index@)), f == pbv(ctx.file_path), c == ctxv(ctx, old(self).defs()),
+        it6.seq() == list.elts@.as_ref(), *expr == Expr::List(*list),
+        acc == b6 + scan_exprs(list.elts@, it6.index@ as int, c),
+        same_rest(*old(self), *self), und_rel(*old(self), *self, f, acc),
+@loopstart 6
+    let ghost i = it6.index@ as int;
+    let ghost s0 = *self;
+    proof { assert(*elt == list.elts@[i]); assert(decreases_to!(list.elts => list.elts@[i])); assert(match *expr { Expr::List(y) => y == *list, _ => false }); }
+@loopend 6
+    proof {
+        lemma_und_trans(*old(self), s0, *self, f, acc, scan_expr(*elt, c));
+        assert((b6 + scan_exprs(list.elts@, i, c)) + scan_expr(*elt, c) =~= b6 + scan_exprs(list.elts@, i + 1, c));
+        acc = acc + scan_expr(*elt, c);
+    }
+@after for 6
+    proof { assert(acc =~= scan_expr(*expr, c)); }
+@before for 7
+    let ghost b7 = acc;
+    proof { assert(b7 + scan_exprs(tuple.elts@, 0, c) =~= b7); }
+@loopvar 7 it7
+@loop 7
+    invariant is_line_index(ints(ctx.line_index@)), f == pbv(ctx.file_path), c == ctxv(ctx, old(self).defs()),
+        it7.seq() == tuple.elts@.as_ref(), *expr == Expr::Tuple(*tuple),
+        acc == b7 + scan_exprs(tuple.elts@, it7.index@ as int, c),
+        same_rest(*old(self), *self), und_rel(*old(self), *self, f, acc),
+@loopstart 7
+    let ghost i = it7.index@ as int;
+    let ghost s0 = *self;
+    proof { assert(*elt == tuple.elts@[i]); assert(decreases_to!(tuple.elts => tuple.elts@[i])); assert(match *expr { Expr::Tuple(y) => y == *tuple, _ => false }); }
+@loopend 7
+    proof {
+        lemma_und_trans(*old(self), s0, *self, f, acc, scan_expr(*elt, c));
+        assert((b7 + scan_exprs(tuple.elts@, i, c)) + scan_expr(*elt, c) =~= b7 + scan_exprs(tuple.elts@, i + 1, c));
+        acc = acc + scan_expr(*elt, c);
+    }
+@after for 7
+    proof { assert(acc =~= scan_expr(*expr, c)); }
+@before for 8
+    let ghost ks = dict.keys@;
+    let ghost kr = somes_ref(ks.as_ref(), ks.len() as int);
+    proof { assert(acc =~= scan_refs(kr, 0, c)); }
+@loopvar 8 it8
+@loop 8
+    invariant is_line_index(ints(ctx.line_index@)), f == pbv(ctx.file_path), c == ctxv(ctx, old(self).defs()),
+        ks == dict.keys@, kr == somes_ref(ks.as_ref(), ks.len() as int), it8.seq() == kr, *expr == Expr::Dict(*dict),
+        acc == scan_refs(kr, it8.index@ as int, c),
+        same_rest(*old(self), *self), und_rel(*old(self), *self, f, acc),
+@loopstart 8
+    let ghost i = it8.index@ as int;
     let ghost s0 = *self;
     proof {
         assert(k == kr[i]);
@@ -375,36 +475,36 @@ impl FixtureDatabase {
         assert(decreases_to!(ks[j] => ks[j]->0));
         assert(match *expr { Expr::Dict(y) => y == *dict, _ => false });
     }
-@loopend 5
+@loopend 8
     proof {
         lemma_und_trans(*old(self), s0, *self, f, acc, scan_expr(*k, c));
         acc = acc + scan_expr(*k, c);
     }
-@before for 6
-    let ghost b0 = acc;
+@before for 9
+    let ghost b9 = acc;
     proof {
         lemma_scan_keys_refs(ks, ks.as_ref(), ks.len() as int, c);
-        assert(b0 == scan_keys(ks, ks.len() as int, c));
-        assert(b0 + scan_exprs(dict.values@, 0, c) =~= b0);
+        assert(b9 == scan_keys(ks, ks.len() as int, c));
+        assert(b9 + scan_exprs(dict.values@, 0, c) =~= b9);
     }
-@loopvar 6 it6
-@loop 6
+@loopvar 9 it9
+@loop 9
     invariant is_line_index(ints(ctx.line_index@)), f == pbv(ctx.file_path), c == ctxv(ctx, old(self).defs()),
-        it6.seq() == dict.values@.as_ref(), *expr == Expr::Dict(*dict),
-        acc == b0 + scan_exprs(dict.values@, it6.index@ as int, c),
+        it9.seq() == dict.values@.as_ref(), *expr == Expr::Dict(*dict),
+        acc == b9 + scan_exprs(dict.values@, it9.index@ as int, c),
         same_rest(*old(self), *self), und_rel(*old(self), *self, f, acc),
-@loopstart 6
-    let ghost i = it6.index@ as int;
+@loopstart 9
+    let ghost i = it9.index@ as int;
     let ghost s0 = *self;
     proof { assert(*value == dict.values@[i]); assert(decreases_to!(dict.values => dict.values@[i])); assert(match *expr { Expr::Dict(y) => y == *dict, _ => false }); }
-@loopend 6
+@loopend 9
     proof {
         lemma_und_trans(*old(self), s0, *self, f, acc, scan_expr(*value, c));
-        assert((b0 + scan_exprs(dict.values@, i, c)) + scan_expr(*value, c) =~= b0 + scan_exprs(dict.values@, i + 1, c));
+        assert((b9 + scan_exprs(dict.values@, i, c)) + scan_expr(*value, c) =~= b9 + scan_exprs(dict.values@, i + 1, c));
         acc = acc + scan_expr(*value, c);
     }
-@after for 6
-    proof { assert(acc == scan_expr(*expr, c)); }
+@after for 9
+    proof { assert(acc =~= scan_expr(*expr, c)); }
 @*/
 
 // the loop variables of this function shadow the parameter `stmt`, so no loop invariant can name the parameter the
@@ -424,213 +524,382 @@ impl FixtureDatabase {
     let ghost st0 = *stmt;
     let ghost mut acc: Seq<UndV> = Seq::empty();
     proof { lemma_und_refl(*old(self), f); }
-@before visit_expr_for_names 5
+@before value 4
     let ghost s0 = *self;
-@after visit_expr_for_names 5
-    proof { lemma_und_trans(*old(self), s0, *self, f, acc, scan_expr(*if_stmt.test, c)); acc = acc + scan_expr(*if_stmt.test, c); }
+@after value 4
+    proof {
+        if ann_assign.value is None { lemma_und_refl(s0, f); }
+        lemma_und_trans(*old(self), s0, *self, f, acc, scan_opt(ann_assign.value, c)); acc = acc + scan_opt(ann_assign.value, c);
+        assert(acc =~= scan_stmt(st0, c));
+    }
+@before exc 1
+    let ghost s0 = *self;
+@after exc 1
+    proof {
+        if raise_stmt.exc is None { lemma_und_refl(s0, f); }
+        lemma_und_trans(*old(self), s0, *self, f, acc, scan_opt(raise_stmt.exc, c)); acc = acc + scan_opt(raise_stmt.exc, c);
+    }
+@before cause 1
+    let ghost s0 = *self;
+@after cause 1
+    proof {
+        if raise_stmt.cause is None { lemma_und_refl(s0, f); }
+        lemma_und_trans(*old(self), s0, *self, f, acc, scan_opt(raise_stmt.cause, c)); acc = acc + scan_opt(raise_stmt.cause, c);
+        assert(acc =~= scan_stmt(st0, c));
+    }
 @before for 1
     let ghost b1 = acc;
-    proof { assert(b1 + scan_body(if_stmt.body@, 0, c) =~= b1); }
+    proof { assert(b1 + scan_body(try_stmt.body@, 0, c) =~= b1); }
 @loopvar 1 it1
 @loop 1
-    invariant is_line_index(ints(ctx.line_index@)), f == pbv(ctx.file_path), c == ctxv(ctx, old(self).defs()),
-        it1.seq() == if_stmt.body@.as_ref(), st0 == Stmt::If(*if_stmt),
-        acc == b1 + scan_body(if_stmt.body@, it1.index@ as int, c),
+    invariant it1.seq() == try_stmt.body@.as_ref(),
+        acc == b1 + scan_body(try_stmt.body@, it1.index@ as int, c),
         same_rest(*old(self), *self), und_rel(*old(self), *self, f, acc),
 @loopstart 1
-    let ghost i = it1.index@ as int;
+    let ghost i1 = it1.index@ as int;
     let ghost s0 = *self;
-    proof { assert(*stmt == if_stmt.body@[i]); assert(decreases_to!(if_stmt.body => if_stmt.body@[i])); assert(match st0 { Stmt::If(y) => y == *if_stmt, _ => false }); }
+    proof { assert(*stmt == try_stmt.body@[i1]); assert(decreases_to!(try_stmt.body => try_stmt.body@[i1])); }
 @loopend 1
     proof {
         lemma_und_trans(*old(self), s0, *self, f, acc, scan_stmt(*stmt, c));
-        assert((b1 + scan_body(if_stmt.body@, i, c)) + scan_stmt(*stmt, c) =~= b1 + scan_body(if_stmt.body@, i + 1, c));
+        assert((b1 + scan_body(try_stmt.body@, i1, c)) + scan_stmt(*stmt, c) =~= b1 + scan_body(try_stmt.body@, i1 + 1, c));
         acc = acc + scan_stmt(*stmt, c);
     }
 @before for 2
     let ghost b2 = acc;
-    proof { assert(b2 + scan_body(if_stmt.orelse@, 0, c) =~= b2); }
+    let ghost hs = try_stmt.handlers@;
+    proof { assert(b2 + scan_handlers(hs, 0, c) =~= b2); }
 @loopvar 2 it2
 @loop 2
-    invariant is_line_index(ints(ctx.line_index@)), f == pbv(ctx.file_path), c == ctxv(ctx, old(self).defs()),
-        it2.seq() == if_stmt.orelse@.as_ref(), st0 == Stmt::If(*if_stmt),
-        acc == b2 + scan_body(if_stmt.orelse@, it2.index@ as int, c),
+    invariant it2.seq() == hs.as_ref(),
+        acc == b2 + scan_handlers(hs, it2.index@ as int, c),
         same_rest(*old(self), *self), und_rel(*old(self), *self, f, acc),
 @loopstart 2
-    let ghost i = it2.index@ as int;
-    let ghost s0 = *self;
-    proof { assert(*stmt == if_stmt.orelse@[i]); assert(decreases_to!(if_stmt.orelse => if_stmt.orelse@[i])); assert(match st0 { Stmt::If(y) => y == *if_stmt, _ => false }); }
+    let ghost hi = it2.index@ as int;
+    proof { assert(*handler == hs[hi]); assert(decreases_to!(try_stmt.handlers => try_stmt.handlers@[hi])); }
+@after h 1
+    proof { assert(hs[hi] == rustpython_parser::ast::ExceptHandler::ExceptHandler(*h)); }
 @loopend 2
-    proof {
-        lemma_und_trans(*old(self), s0, *self, f, acc, scan_stmt(*stmt, c));
-        assert((b2 + scan_body(if_stmt.orelse@, i, c)) + scan_stmt(*stmt, c) =~= b2 + scan_body(if_stmt.orelse@, i + 1, c));
-        acc = acc + scan_stmt(*stmt, c);
-    }
-@after for 2
-    proof { assert(acc =~= scan_stmt(st0, c)); }
-@before visit_expr_for_names 6
-    let ghost s0 = *self;
-@after visit_expr_for_names 6
-    proof { lemma_und_trans(*old(self), s0, *self, f, acc, scan_expr(*while_stmt.test, c)); acc = acc + scan_expr(*while_stmt.test, c); }
+    proof { assert((b2 + scan_handlers(hs, hi, c)) + scan_body(h.body@, h.body@.len() as int, c) =~= b2 + scan_handlers(hs, hi + 1, c)); }
 @before for 3
     let ghost b3 = acc;
-    proof { assert(b3 + scan_body(while_stmt.body@, 0, c) =~= b3); }
+    proof { assert(b3 + scan_body(h.body@, 0, c) =~= b3); }
 @loopvar 3 it3
 @loop 3
-    invariant is_line_index(ints(ctx.line_index@)), f == pbv(ctx.file_path), c == ctxv(ctx, old(self).defs()),
-        it3.seq() == while_stmt.body@.as_ref(), st0 == Stmt::While(*while_stmt),
-        acc == b3 + scan_body(while_stmt.body@, it3.index@ as int, c),
+    invariant it3.seq() == h.body@.as_ref(),
+        acc == b3 + scan_body(h.body@, it3.index@ as int, c),
         same_rest(*old(self), *self), und_rel(*old(self), *self, f, acc),
 @loopstart 3
-    let ghost i = it3.index@ as int;
+    let ghost i3 = it3.index@ as int;
     let ghost s0 = *self;
-    proof { assert(*stmt == while_stmt.body@[i]); assert(decreases_to!(while_stmt.body => while_stmt.body@[i])); assert(match st0 { Stmt::While(y) => y == *while_stmt, _ => false }); }
+    proof { assert(*stmt == h.body@[i3]); assert(decreases_to!(h.body => h.body@[i3])); }
 @loopend 3
     proof {
         lemma_und_trans(*old(self), s0, *self, f, acc, scan_stmt(*stmt, c));
-        assert((b3 + scan_body(while_stmt.body@, i, c)) + scan_stmt(*stmt, c) =~= b3 + scan_body(while_stmt.body@, i + 1, c));
+        assert((b3 + scan_body(h.body@, i3, c)) + scan_stmt(*stmt, c) =~= b3 + scan_body(h.body@, i3 + 1, c));
         acc = acc + scan_stmt(*stmt, c);
     }
-@after for 3
-    proof { assert(acc =~= scan_stmt(st0, c)); }
-@before visit_expr_for_names 7
-    let ghost s0 = *self;
-@after visit_expr_for_names 7
-    proof { lemma_und_trans(*old(self), s0, *self, f, acc, scan_expr(*for_stmt.iter, c)); acc = acc + scan_expr(*for_stmt.iter, c); }
 @before for 4
     let ghost b4 = acc;
-    proof { assert(b4 + scan_body(for_stmt.body@, 0, c) =~= b4); }
+    proof { assert(b4 + scan_body(try_stmt.orelse@, 0, c) =~= b4); }
 @loopvar 4 it4
 @loop 4
-    invariant is_line_index(ints(ctx.line_index@)), f == pbv(ctx.file_path), c == ctxv(ctx, old(self).defs()),
-        it4.seq() == for_stmt.body@.as_ref(), st0 == Stmt::For(*for_stmt),
-        acc == b4 + scan_body(for_stmt.body@, it4.index@ as int, c),
+    invariant it4.seq() == try_stmt.orelse@.as_ref(),
+        acc == b4 + scan_body(try_stmt.orelse@, it4.index@ as int, c),
         same_rest(*old(self), *self), und_rel(*old(self), *self, f, acc),
 @loopstart 4
-    let ghost i = it4.index@ as int;
+    let ghost i4 = it4.index@ as int;
     let ghost s0 = *self;
-    proof { assert(*stmt == for_stmt.body@[i]); assert(decreases_to!(for_stmt.body => for_stmt.body@[i])); assert(match st0 { Stmt::For(y) => y == *for_stmt, _ => false }); }
+    proof { assert(*stmt == try_stmt.orelse@[i4]); assert(decreases_to!(try_stmt.orelse => try_stmt.orelse@[i4])); }
 @loopend 4
     proof {
         lemma_und_trans(*old(self), s0, *self, f, acc, scan_stmt(*stmt, c));
-        assert((b4 + scan_body(for_stmt.body@, i, c)) + scan_stmt(*stmt, c) =~= b4 + scan_body(for_stmt.body@, i + 1, c));
+        assert((b4 + scan_body(try_stmt.orelse@, i4, c)) + scan_stmt(*stmt, c) =~= b4 + scan_body(try_stmt.orelse@, i4 + 1, c));
         acc = acc + scan_stmt(*stmt, c);
     }
-@after for 4
-    proof { assert(acc =~= scan_stmt(st0, c)); }
 @before for 5
-    proof { assert(acc =~= scan_items(with_stmt.items@, 0, c)); }
+    let ghost b5 = acc;
+    proof { assert(b5 + scan_body(try_stmt.finalbody@, 0, c) =~= b5); }
 @loopvar 5 it5
 @loop 5
-    invariant is_line_index(ints(ctx.line_index@)), f == pbv(ctx.file_path), c == ctxv(ctx, old(self).defs()),
-        it5.seq() == with_stmt.items@.as_ref(), st0 == Stmt::With(*with_stmt),
-        acc == scan_items(with_stmt.items@, it5.index@ as int, c),
+    invariant it5.seq() == try_stmt.finalbody@.as_ref(),
+        acc == b5 + scan_body(try_stmt.finalbody@, it5.index@ as int, c),
         same_rest(*old(self), *self), und_rel(*old(self), *self, f, acc),
 @loopstart 5
-    let ghost i = it5.index@ as int;
+    let ghost i5 = it5.index@ as int;
     let ghost s0 = *self;
-    proof { assert(*item == with_stmt.items@[i]); }
+    proof { assert(*stmt == try_stmt.finalbody@[i5]); assert(decreases_to!(try_stmt.finalbody => try_stmt.finalbody@[i5])); }
 @loopend 5
     proof {
-        lemma_und_trans(*old(self), s0, *self, f, acc, scan_expr(item.context_expr, c));
-        acc = acc + scan_expr(item.context_expr, c);
+        lemma_und_trans(*old(self), s0, *self, f, acc, scan_stmt(*stmt, c));
+        assert((b5 + scan_body(try_stmt.finalbody@, i5, c)) + scan_stmt(*stmt, c) =~= b5 + scan_body(try_stmt.finalbody@, i5 + 1, c));
+        acc = acc + scan_stmt(*stmt, c);
     }
+@after for 5
+    proof { assert(acc =~= scan_stmt(st0, c)); }
+@before visit_expr_for_names 8
+    let ghost s0 = *self;
+@after visit_expr_for_names 8
+    proof { lemma_und_trans(*old(self), s0, *self, f, acc, scan_expr(*if_stmt.test, c)); acc = acc + scan_expr(*if_stmt.test, c); }
 @before for 6
     let ghost b6 = acc;
-    proof { assert(b6 + scan_body(with_stmt.body@, 0, c) =~= b6); }
+    proof { assert(b6 + scan_body(if_stmt.body@, 0, c) =~= b6); }
 @loopvar 6 it6
 @loop 6
-    invariant is_line_index(ints(ctx.line_index@)), f == pbv(ctx.file_path), c == ctxv(ctx, old(self).defs()),
-        it6.seq() == with_stmt.body@.as_ref(), st0 == Stmt::With(*with_stmt),
-        acc == b6 + scan_body(with_stmt.body@, it6.index@ as int, c),
+    invariant it6.seq() == if_stmt.body@.as_ref(),
+        acc == b6 + scan_body(if_stmt.body@, it6.index@ as int, c),
         same_rest(*old(self), *self), und_rel(*old(self), *self, f, acc),
 @loopstart 6
-    let ghost i = it6.index@ as int;
+    let ghost i6 = it6.index@ as int;
     let ghost s0 = *self;
-    proof { assert(*stmt == with_stmt.body@[i]); assert(decreases_to!(with_stmt.body => with_stmt.body@[i])); assert(match st0 { Stmt::With(y) => y == *with_stmt, _ => false }); }
+    proof { assert(*stmt == if_stmt.body@[i6]); assert(decreases_to!(if_stmt.body => if_stmt.body@[i6])); }
 @loopend 6
     proof {
         lemma_und_trans(*old(self), s0, *self, f, acc, scan_stmt(*stmt, c));
-        assert((b6 + scan_body(with_stmt.body@, i, c)) + scan_stmt(*stmt, c) =~= b6 + scan_body(with_stmt.body@, i + 1, c));
+        assert((b6 + scan_body(if_stmt.body@, i6, c)) + scan_stmt(*stmt, c) =~= b6 + scan_body(if_stmt.body@, i6 + 1, c));
         acc = acc + scan_stmt(*stmt, c);
     }
-@after for 6
-    proof { assert(acc =~= scan_stmt(st0, c)); }
-@before visit_expr_for_names 9
-    let ghost s0 = *self;
-@after visit_expr_for_names 9
-    proof { lemma_und_trans(*old(self), s0, *self, f, acc, scan_expr(*for_stmt.iter, c)); acc = acc + scan_expr(*for_stmt.iter, c); }
 @before for 7
     let ghost b7 = acc;
-    proof { assert(b7 + scan_body(for_stmt.body@, 0, c) =~= b7); }
+    proof { assert(b7 + scan_body(if_stmt.orelse@, 0, c) =~= b7); }
 @loopvar 7 it7
 @loop 7
-    invariant is_line_index(ints(ctx.line_index@)), f == pbv(ctx.file_path), c == ctxv(ctx, old(self).defs()),
-        it7.seq() == for_stmt.body@.as_ref(), st0 == Stmt::AsyncFor(*for_stmt),
-        acc == b7 + scan_body(for_stmt.body@, it7.index@ as int, c),
+    invariant it7.seq() == if_stmt.orelse@.as_ref(),
+        acc == b7 + scan_body(if_stmt.orelse@, it7.index@ as int, c),
         same_rest(*old(self), *self), und_rel(*old(self), *self, f, acc),
 @loopstart 7
-    let ghost i = it7.index@ as int;
+    let ghost i7 = it7.index@ as int;
     let ghost s0 = *self;
-    proof { assert(*stmt == for_stmt.body@[i]); assert(decreases_to!(for_stmt.body => for_stmt.body@[i])); assert(match st0 { Stmt::AsyncFor(y) => y == *for_stmt, _ => false }); }
+    proof { assert(*stmt == if_stmt.orelse@[i7]); assert(decreases_to!(if_stmt.orelse => if_stmt.orelse@[i7])); }
 @loopend 7
     proof {
         lemma_und_trans(*old(self), s0, *self, f, acc, scan_stmt(*stmt, c));
-        assert((b7 + scan_body(for_stmt.body@, i, c)) + scan_stmt(*stmt, c) =~= b7 + scan_body(for_stmt.body@, i + 1, c));
+        assert((b7 + scan_body(if_stmt.orelse@, i7, c)) + scan_stmt(*stmt, c) =~= b7 + scan_body(if_stmt.orelse@, i7 + 1, c));
         acc = acc + scan_stmt(*stmt, c);
     }
 @after for 7
     proof { assert(acc =~= scan_stmt(st0, c)); }
+@before visit_expr_for_names 9
+    let ghost s0 = *self;
+@after visit_expr_for_names 9
+    proof { lemma_und_trans(*old(self), s0, *self, f, acc, scan_expr(*while_stmt.test, c)); acc = acc + scan_expr(*while_stmt.test, c); }
 @before for 8
-    proof { assert(acc =~= scan_items(with_stmt.items@, 0, c)); }
+    let ghost b8 = acc;
+    proof { assert(b8 + scan_body(while_stmt.body@, 0, c) =~= b8); }
 @loopvar 8 it8
 @loop 8
-    invariant is_line_index(ints(ctx.line_index@)), f == pbv(ctx.file_path), c == ctxv(ctx, old(self).defs()),
-        it8.seq() == with_stmt.items@.as_ref(), st0 == Stmt::AsyncWith(*with_stmt),
-        acc == scan_items(with_stmt.items@, it8.index@ as int, c),
+    invariant it8.seq() == while_stmt.body@.as_ref(),
+        acc == b8 + scan_body(while_stmt.body@, it8.index@ as int, c),
         same_rest(*old(self), *self), und_rel(*old(self), *self, f, acc),
 @loopstart 8
-    let ghost i = it8.index@ as int;
+    let ghost i8 = it8.index@ as int;
     let ghost s0 = *self;
-    proof { assert(*item == with_stmt.items@[i]); }
+    proof { assert(*stmt == while_stmt.body@[i8]); assert(decreases_to!(while_stmt.body => while_stmt.body@[i8])); }
 @loopend 8
     proof {
-        lemma_und_trans(*old(self), s0, *self, f, acc, scan_expr(item.context_expr, c));
-        acc = acc + scan_expr(item.context_expr, c);
+        lemma_und_trans(*old(self), s0, *self, f, acc, scan_stmt(*stmt, c));
+        assert((b8 + scan_body(while_stmt.body@, i8, c)) + scan_stmt(*stmt, c) =~= b8 + scan_body(while_stmt.body@, i8 + 1, c));
+        acc = acc + scan_stmt(*stmt, c);
     }
 @before for 9
     let ghost b9 = acc;
-    proof { assert(b9 + scan_body(with_stmt.body@, 0, c) =~= b9); }
+    proof { assert(b9 + scan_body(while_stmt.orelse@, 0, c) =~= b9); }
 @loopvar 9 it9
 @loop 9
-    invariant is_line_index(ints(ctx.line_index@)), f == pbv(ctx.file_path), c == ctxv(ctx, old(self).defs()),
-        it9.seq() == with_stmt.body@.as_ref(), st0 == Stmt::AsyncWith(*with_stmt),
-        acc == b9 + scan_body(with_stmt.body@, it9.index@ as int, c),
+    invariant it9.seq() == while_stmt.orelse@.as_ref(),
+        acc == b9 + scan_body(while_stmt.orelse@, it9.index@ as int, c),
         same_rest(*old(self), *self), und_rel(*old(self), *self, f, acc),
 @loopstart 9
-    let ghost i = it9.index@ as int;
+    let ghost i9 = it9.index@ as int;
     let ghost s0 = *self;
-    proof { assert(*stmt == with_stmt.body@[i]); assert(decreases_to!(with_stmt.body => with_stmt.body@[i])); assert(match st0 { Stmt::AsyncWith(y) => y == *with_stmt, _ => false }); }
+    proof { assert(*stmt == while_stmt.orelse@[i9]); assert(decreases_to!(while_stmt.orelse => while_stmt.orelse@[i9])); }
 @loopend 9
     proof {
         lemma_und_trans(*old(self), s0, *self, f, acc, scan_stmt(*stmt, c));
-        assert((b9 + scan_body(with_stmt.body@, i, c)) + scan_stmt(*stmt, c) =~= b9 + scan_body(with_stmt.body@, i + 1, c));
+        assert((b9 + scan_body(while_stmt.orelse@, i9, c)) + scan_stmt(*stmt, c) =~= b9 + scan_body(while_stmt.orelse@, i9 + 1, c));
         acc = acc + scan_stmt(*stmt, c);
     }
 @after for 9
     proof { assert(acc =~= scan_stmt(st0, c)); }
-@before visit_expr_for_names 11
+@before visit_expr_for_names 10
     let ghost s0 = *self;
-@after visit_expr_for_names 11
-    proof { lemma_und_trans(*old(self), s0, *self, f, acc, scan_expr(*assert_stmt.test, c)); acc = acc + scan_expr(*assert_stmt.test, c); }
+@after visit_expr_for_names 10
+    proof { lemma_und_trans(*old(self), s0, *self, f, acc, scan_expr(*for_stmt.iter, c)); acc = acc + scan_expr(*for_stmt.iter, c); }
+@before for 10
+    let ghost b10 = acc;
+    proof { assert(b10 + scan_body(for_stmt.body@, 0, c) =~= b10); }
+@loopvar 10 it10
+@loop 10
+    invariant it10.seq() == for_stmt.body@.as_ref(),
+        acc == b10 + scan_body(for_stmt.body@, it10.index@ as int, c),
+        same_rest(*old(self), *self), und_rel(*old(self), *self, f, acc),
+@loopstart 10
+    let ghost i10 = it10.index@ as int;
+    let ghost s0 = *self;
+    proof { assert(*stmt == for_stmt.body@[i10]); assert(decreases_to!(for_stmt.body => for_stmt.body@[i10])); }
+@loopend 10
+    proof {
+        lemma_und_trans(*old(self), s0, *self, f, acc, scan_stmt(*stmt, c));
+        assert((b10 + scan_body(for_stmt.body@, i10, c)) + scan_stmt(*stmt, c) =~= b10 + scan_body(for_stmt.body@, i10 + 1, c));
+        acc = acc + scan_stmt(*stmt, c);
+    }
+@before for 11
+    let ghost b11 = acc;
+    proof { assert(b11 + scan_body(for_stmt.orelse@, 0, c) =~= b11); }
+@loopvar 11 it11
+@loop 11
+    invariant it11.seq() == for_stmt.orelse@.as_ref(),
+        acc == b11 + scan_body(for_stmt.orelse@, it11.index@ as int, c),
+        same_rest(*old(self), *self), und_rel(*old(self), *self, f, acc),
+@loopstart 11
+    let ghost i11 = it11.index@ as int;
+    let ghost s0 = *self;
+    proof { assert(*stmt == for_stmt.orelse@[i11]); assert(decreases_to!(for_stmt.orelse => for_stmt.orelse@[i11])); }
+@loopend 11
+    proof {
+        lemma_und_trans(*old(self), s0, *self, f, acc, scan_stmt(*stmt, c));
+        assert((b11 + scan_body(for_stmt.orelse@, i11, c)) + scan_stmt(*stmt, c) =~= b11 + scan_body(for_stmt.orelse@, i11 + 1, c));
+        acc = acc + scan_stmt(*stmt, c);
+    }
+@after for 11
+    proof { assert(acc =~= scan_stmt(st0, c)); }
+@before for 12
+    proof { assert(acc =~= scan_items(with_stmt.items@, 0, c)); }
+@loopvar 12 it12
+@loop 12
+    invariant it12.seq() == with_stmt.items@.as_ref(),
+        acc == scan_items(with_stmt.items@, it12.index@ as int, c),
+        same_rest(*old(self), *self), und_rel(*old(self), *self, f, acc),
+@loopstart 12
+    let ghost i12 = it12.index@ as int;
+    let ghost s0 = *self;
+    proof { assert(*item == with_stmt.items@[i12]); }
+@loopend 12
+    proof {
+        lemma_und_trans(*old(self), s0, *self, f, acc, scan_expr(item.context_expr, c));
+        acc = acc + scan_expr(item.context_expr, c);
+    }
+@before for 13
+    let ghost b13 = acc;
+    proof { assert(b13 + scan_body(with_stmt.body@, 0, c) =~= b13); }
+@loopvar 13 it13
+@loop 13
+    invariant it13.seq() == with_stmt.body@.as_ref(),
+        acc == b13 + scan_body(with_stmt.body@, it13.index@ as int, c),
+        same_rest(*old(self), *self), und_rel(*old(self), *self, f, acc),
+@loopstart 13
+    let ghost i13 = it13.index@ as int;
+    let ghost s0 = *self;
+    proof { assert(*stmt == with_stmt.body@[i13]); assert(decreases_to!(with_stmt.body => with_stmt.body@[i13])); }
+@loopend 13
+    proof {
+        lemma_und_trans(*old(self), s0, *self, f, acc, scan_stmt(*stmt, c));
+        assert((b13 + scan_body(with_stmt.body@, i13, c)) + scan_stmt(*stmt, c) =~= b13 + scan_body(with_stmt.body@, i13 + 1, c));
+        acc = acc + scan_stmt(*stmt, c);
+    }
+@after for 13
+    proof { assert(acc =~= scan_stmt(st0, c)); }
 @before visit_expr_for_names 12
     let ghost s0 = *self;
 @after visit_expr_for_names 12
-    proof { lemma_und_trans(*old(self), s0, *self, f, acc, scan_expr(**msg, c)); acc = acc + scan_expr(**msg, c); assert(acc =~= scan_stmt(st0, c)); }
+    proof { lemma_und_trans(*old(self), s0, *self, f, acc, scan_expr(*for_stmt.iter, c)); acc = acc + scan_expr(*for_stmt.iter, c); }
+@before for 14
+    let ghost b14 = acc;
+    proof { assert(b14 + scan_body(for_stmt.body@, 0, c) =~= b14); }
+@loopvar 14 it14
+@loop 14
+    invariant it14.seq() == for_stmt.body@.as_ref(),
+        acc == b14 + scan_body(for_stmt.body@, it14.index@ as int, c),
+        same_rest(*old(self), *self), und_rel(*old(self), *self, f, acc),
+@loopstart 14
+    let ghost i14 = it14.index@ as int;
+    let ghost s0 = *self;
+    proof { assert(*stmt == for_stmt.body@[i14]); assert(decreases_to!(for_stmt.body => for_stmt.body@[i14])); }
+@loopend 14
+    proof {
+        lemma_und_trans(*old(self), s0, *self, f, acc, scan_stmt(*stmt, c));
+        assert((b14 + scan_body(for_stmt.body@, i14, c)) + scan_stmt(*stmt, c) =~= b14 + scan_body(for_stmt.body@, i14 + 1, c));
+        acc = acc + scan_stmt(*stmt, c);
+    }
+@before for 15
+    let ghost b15 = acc;
+    proof { assert(b15 + scan_body(for_stmt.orelse@, 0, c) =~= b15); }
+@loopvar 15 it15
+@loop 15
+    invariant it15.seq() == for_stmt.orelse@.as_ref(),
+        acc == b15 + scan_body(for_stmt.orelse@, it15.index@ as int, c),
+        same_rest(*old(self), *self), und_rel(*old(self), *self, f, acc),
+@loopstart 15
+    let ghost i15 = it15.index@ as int;
+    let ghost s0 = *self;
+    proof { assert(*stmt == for_stmt.orelse@[i15]); assert(decreases_to!(for_stmt.orelse => for_stmt.orelse@[i15])); }
+@loopend 15
+    proof {
+        lemma_und_trans(*old(self), s0, *self, f, acc, scan_stmt(*stmt, c));
+        assert((b15 + scan_body(for_stmt.orelse@, i15, c)) + scan_stmt(*stmt, c) =~= b15 + scan_body(for_stmt.orelse@, i15 + 1, c));
+        acc = acc + scan_stmt(*stmt, c);
+    }
+@after for 15
+    proof { assert(acc =~= scan_stmt(st0, c)); }
+@before for 16
+    proof { assert(acc =~= scan_items(with_stmt.items@, 0, c)); }
+@loopvar 16 it16
+@loop 16
+    invariant it16.seq() == with_stmt.items@.as_ref(),
+        acc == scan_items(with_stmt.items@, it16.index@ as int, c),
+        same_rest(*old(self), *self), und_rel(*old(self), *self, f, acc),
+@loopstart 16
+    let ghost i16 = it16.index@ as int;
+    let ghost s0 = *self;
+    proof { assert(*item == with_stmt.items@[i16]); }
+@loopend 16
+    proof {
+        lemma_und_trans(*old(self), s0, *self, f, acc, scan_expr(item.context_expr, c));
+        acc = acc + scan_expr(item.context_expr, c);
+    }
+@before for 17
+    let ghost b17 = acc;
+    proof { assert(b17 + scan_body(with_stmt.body@, 0, c) =~= b17); }
+@loopvar 17 it17
+@loop 17
+    invariant it17.seq() == with_stmt.body@.as_ref(),
+        acc == b17 + scan_body(with_stmt.body@, it17.index@ as int, c),
+        same_rest(*old(self), *self), und_rel(*old(self), *self, f, acc),
+@loopstart 17
+    let ghost i17 = it17.index@ as int;
+    let ghost s0 = *self;
+    proof { assert(*stmt == with_stmt.body@[i17]); assert(decreases_to!(with_stmt.body => with_stmt.body@[i17])); }
+@loopend 17
+    proof {
+        lemma_und_trans(*old(self), s0, *self, f, acc, scan_stmt(*stmt, c));
+        assert((b17 + scan_body(with_stmt.body@, i17, c)) + scan_stmt(*stmt, c) =~= b17 + scan_body(with_stmt.body@, i17 + 1, c));
+        acc = acc + scan_stmt(*stmt, c);
+    }
+@after for 17
+    proof { assert(acc =~= scan_stmt(st0, c)); }
+@before visit_expr_for_names 14
+    let ghost s0 = *self;
+@after visit_expr_for_names 14
+    proof { lemma_und_trans(*old(self), s0, *self, f, acc, scan_expr(*assert_stmt.test, c)); acc = acc + scan_expr(*assert_stmt.test, c); }
+@before msg 1
+    let ghost s0 = *self;
+@after msg 1
+    proof {
+        if assert_stmt.msg is None { lemma_und_refl(s0, f); }
+        lemma_und_trans(*old(self), s0, *self, f, acc, scan_opt(assert_stmt.msg, c)); acc = acc + scan_opt(assert_stmt.msg, c);
+        assert(acc =~= scan_stmt(st0, c));
+    }
+@*/
+
+/*@ extract src/fixtures/undeclared.rs bind_local
+@tags C17
+@sig
+    ensures final(local_vars).m() == min_bind(old(local_vars).m(), name@, line),
 @*/
 
 /*@ extract src/fixtures/undeclared.rs collect_local_variables
 @tags C17
+@wrapexpr 1 `alias.name.split('.').next().unwrap_or("").to_string()` => `Self::vp_dotted_head(alias)` with fn vp_dotted_head(alias: &rustpython_parser::ast::Alias) -> (r: String) ensures r@ == dotted_head(idv(&alias.name))
 @sig
     requires is_line_index(ints(line_index@)),
     ensures final(local_vars).m() == locals_body(body@, body@.len() as int, line_index@, old(local_vars).m()),
@@ -695,7 +964,7 @@ impl FixtureDatabase {
     proof { assert(name == it6.seq()[it6.index@ as int]); lemma_bind_step(it6.seq(), it6.index@ as int, nm6, m1, local_vars.m(), line); }
 @after for 6
     proof { assert(nm6 =~= target_names(*for_stmt.target)); }
-@after collect_local_variables 1
+@after collect_local_variables 2
     proof { assert(local_vars.m() == locals_stmt(*stmt, li, m1)); }
 @before for 7
     let ghost nm7 = temp_names.s();
@@ -707,11 +976,11 @@ impl FixtureDatabase {
     proof { assert(name == it7.seq()[it7.index@ as int]); lemma_bind_step(it7.seq(), it7.index@ as int, nm7, m1, local_vars.m(), line); }
 @after for 7
     proof { assert(nm7 =~= target_names(*for_stmt.target)); }
-@after collect_local_variables 2
+@after collect_local_variables 4
     proof { assert(local_vars.m() == locals_stmt(*stmt, li, m1)); }
-@after collect_local_variables 3
+@after collect_local_variables 6
     proof { assert(local_vars.m() == locals_stmt(*stmt, li, m1)); }
-@after collect_local_variables 5
+@after collect_local_variables 8
     proof { assert(local_vars.m() == locals_stmt(*stmt, li, m1)); }
 @loopvar 8 it8
 @loop 8
@@ -733,7 +1002,7 @@ impl FixtureDatabase {
     proof { assert(name == it9.seq()[it9.index@ as int]); lemma_bind_step(it9.seq(), it9.index@ as int, nm9, m2, local_vars.m(), line); }
 @after for 9
     proof { assert(nm9 =~= target_names(**optional_vars)); }
-@after collect_local_variables 6
+@after collect_local_variables 9
     proof { assert(local_vars.m() == locals_stmt(*stmt, li, m1)); }
 @loopvar 10 it10
 @loop 10
@@ -755,9 +1024,51 @@ impl FixtureDatabase {
     proof { assert(name == it11.seq()[it11.index@ as int]); lemma_bind_step(it11.seq(), it11.index@ as int, nm11, m2, local_vars.m(), line); }
 @after for 11
     proof { assert(nm11 =~= target_names(**optional_vars)); }
-@after collect_local_variables 7
-    proof { assert(local_vars.m() == locals_stmt(*stmt, li, m1)); }
 @after collect_local_variables 10
+    proof { assert(local_vars.m() == locals_stmt(*stmt, li, m1)); }
+@before for 12
+    let ghost mt = local_vars.m();
+    let ghost hs = try_stmt.handlers@;
+@loopvar 12 it12
+@loop 12
+    invariant is_line_index(ints(line_index@)), li == line_index@, it12.seq() == hs.as_ref(), hs == try_stmt.handlers@,
+        *stmt == Stmt::Try(*try_stmt), 0 <= oi < body@.len(), *stmt == body@[oi],
+        local_vars.m() == locals_handlers(hs, it12.index@ as int, li, mt),
+@loopstart 12
+    let ghost hi = it12.index@ as int;
+    let ghost mh = local_vars.m();
+    proof { assert(*handler == hs[hi]); }
+@after h 1
+    proof { assert(hs[hi] == rustpython_parser::ast::ExceptHandler::ExceptHandler(*h));
+        assert(decreases_to!(body@ => body@[oi]));
+        assert(decreases_to!(try_stmt.handlers => try_stmt.handlers@[hi])); }
+@before collect_local_variables 12
+    proof { assert(local_vars.m() == handler_name_bind(h.name, mh, vline(li, r_start(h.range)))); }
+@loopend 12
+    proof { assert(local_vars.m() == locals_handlers(hs, hi + 1, li, mt)); }
+@after collect_local_variables 14
+    proof { assert(local_vars.m() == locals_stmt(*stmt, li, m1)); }
+@loopvar 13 it13
+@loop 13
+    invariant it13.seq() == import_stmt.names@.as_ref(),
+        local_vars.m() == import_bind(import_stmt.names@, it13.index@ as int, true, m1, line),
+@loopstart 13
+    proof { assert(*alias == import_stmt.names@[it13.index@ as int]); }
+@after for 13
+    proof { assert(local_vars.m() == locals_stmt(*stmt, li, m1)); }
+@loopvar 14 it14
+@loop 14
+    invariant it14.seq() == import_from.names@.as_ref(),
+        local_vars.m() == import_bind(import_from.names@, it14.index@ as int, false, m1, line),
+@loopstart 14
+    proof { assert(*alias == import_from.names@[it14.index@ as int]); }
+@after for 14
+    proof { assert(local_vars.m() == locals_stmt(*stmt, li, m1)); }
+@after bind_local 11
+    proof { assert(local_vars.m() == locals_stmt(*stmt, li, m1)); }
+@after bind_local 12
+    proof { assert(local_vars.m() == locals_stmt(*stmt, li, m1)); }
+@after bind_local 13
     proof { assert(local_vars.m() == locals_stmt(*stmt, li, m1)); }
 @*/
 
@@ -880,743 +1191,6 @@ impl FixtureDatabase {
 @*/
 }
 
-// ================================================================================================================
-// L2: property C17 (scanner part) from the operational specification
-// ================================================================================================================
-// ---- (a) precision ---------------------------------------------------------------------------------------------
-/// what holds of every finding recorded with context c: its name is not a declared parameter, it is not a local
-/// variable recorded with an EARLIER line, some definition of it is visible from the file (is_available_fixture,
-/// unit undeclared_avail), its line is a real (1-based) line, and it is filed under the scanned file / function
-pub open spec fn entry_ok(u: UndV, c: ScanV) -> bool {
-    &&& !c.declared.contains(u.name)
-    &&& !local_in_scope(c.locals, u.name, u.line)
-    &&& op_is_available(bucket(c.defs, u.name), c.file)
-    &&& (is_line_index(ints(c.li)) && c.li.len() <= usize::MAX ==> u.line >= 1)
-    &&& u.file == c.file && u.function_name == c.fname && u.function_line == c.fline
-}
-pub open spec fn all_ok(s: Seq<UndV>, c: ScanV) -> bool { forall|i: int| 0 <= i < s.len() ==> entry_ok(#[trigger] s[i], c) }
-//@tags C17
-pub proof fn lemma_vline_ge1(li: Seq<usize>, off: usize)
-    requires is_line_index(ints(li)), li.len() <= usize::MAX,
-    ensures vline(li, off) >= 1,
-{
-    lemma_line_sound(ints(li), off as int);
-}
-//@tags C17
-pub proof fn lemma_scan_expr_ok(e: Expr, c: ScanV)
-    ensures all_ok(scan_expr(e, c), c),
-    decreases e, 0int
-{
-    match e {
-        Expr::Name(n) => { if is_line_index(ints(c.li)) && c.li.len() <= usize::MAX { lemma_vline_ge1(c.li, r_start(n.range)); } }
-        Expr::Call(x) => { lemma_scan_expr_ok(*x.func, c); lemma_scan_exprs_ok(x.args@, x.args@.len() as int, c); }
-        Expr::Attribute(x) => { lemma_scan_expr_ok(*x.value, c); }
-        Expr::BinOp(x) => { lemma_scan_expr_ok(*x.left, c); lemma_scan_expr_ok(*x.right, c); }
-        Expr::UnaryOp(x) => { lemma_scan_expr_ok(*x.operand, c); }
-        Expr::Compare(x) => { lemma_scan_expr_ok(*x.left, c); lemma_scan_exprs_ok(x.comparators@, x.comparators@.len() as int, c); }
-        Expr::Subscript(x) => { lemma_scan_expr_ok(*x.value, c); lemma_scan_expr_ok(*x.slice, c); }
-        Expr::List(x) => { lemma_scan_exprs_ok(x.elts@, x.elts@.len() as int, c); }
-        Expr::Tuple(x) => { lemma_scan_exprs_ok(x.elts@, x.elts@.len() as int, c); }
-        Expr::Dict(x) => { lemma_scan_keys_ok(x.keys@, x.keys@.len() as int, c); lemma_scan_exprs_ok(x.values@, x.values@.len() as int, c); }
-        Expr::Await(x) => { lemma_scan_expr_ok(*x.value, c); }
-        _ => {}
-    }
-}
-//@tags C17
-pub proof fn lemma_scan_exprs_ok(es: Seq<Expr>, n: int, c: ScanV)
-    ensures all_ok(scan_exprs(es, n, c), c),
-    decreases es, n
-{
-    if 0 < n <= es.len() { lemma_scan_exprs_ok(es, n - 1, c); lemma_scan_expr_ok(es[n - 1], c); }
-}
-//@tags C17
-pub proof fn lemma_scan_keys_ok(ks: Seq<Option<Expr>>, n: int, c: ScanV)
-    ensures all_ok(scan_keys(ks, n, c), c),
-    decreases ks, n
-{
-    if 0 < n <= ks.len() {
-        lemma_scan_keys_ok(ks, n - 1, c);
-        match ks[n - 1] { Some(k) => { lemma_scan_expr_ok(k, c); } None => {} }
-    }
-}
-//@tags C17
-pub proof fn lemma_scan_items_ok(items: Seq<AWithItem>, n: int, c: ScanV)
-    ensures all_ok(scan_items(items, n, c), c),
-    decreases n
-{
-    if 0 < n <= items.len() { lemma_scan_items_ok(items, n - 1, c); lemma_scan_expr_ok(items[n - 1].context_expr, c); }
-}
-//@tags C17
-pub proof fn lemma_scan_stmt_ok(s: Stmt, c: ScanV)
-    ensures all_ok(scan_stmt(s, c), c),
-    decreases s, 0int
-{
-    match s {
-        Stmt::Expr(x) => { lemma_scan_expr_ok(*x.value, c); }
-        Stmt::Assign(x) => { lemma_scan_expr_ok(*x.value, c); }
-        Stmt::AugAssign(x) => { lemma_scan_expr_ok(*x.value, c); }
-        Stmt::Return(x) => { match x.value { Some(v) => { lemma_scan_expr_ok(*v, c); } None => {} } }
-        Stmt::If(x) => { lemma_scan_expr_ok(*x.test, c); lemma_scan_body_ok(x.body@, x.body@.len() as int, c); lemma_scan_body_ok(x.orelse@, x.orelse@.len() as int, c); }
-        Stmt::While(x) => { lemma_scan_expr_ok(*x.test, c); lemma_scan_body_ok(x.body@, x.body@.len() as int, c); }
-        Stmt::For(x) => { lemma_scan_expr_ok(*x.iter, c); lemma_scan_body_ok(x.body@, x.body@.len() as int, c); }
-        Stmt::With(x) => { lemma_scan_items_ok(x.items@, x.items@.len() as int, c); lemma_scan_body_ok(x.body@, x.body@.len() as int, c); }
-        Stmt::AsyncFor(x) => { lemma_scan_expr_ok(*x.iter, c); lemma_scan_body_ok(x.body@, x.body@.len() as int, c); }
-        Stmt::AsyncWith(x) => { lemma_scan_items_ok(x.items@, x.items@.len() as int, c); lemma_scan_body_ok(x.body@, x.body@.len() as int, c); }
-        Stmt::Assert(x) => { lemma_scan_expr_ok(*x.test, c); match x.msg { Some(m) => { lemma_scan_expr_ok(*m, c); } None => {} } }
-        _ => {}
-    }
-}
-//@tags C17
-pub proof fn lemma_scan_body_ok(b: Seq<Stmt>, n: int, c: ScanV)
-    ensures all_ok(scan_body(b, n, c), c),
-    decreases b, n
-{
-    if 0 < n <= b.len() { lemma_scan_body_ok(b, n - 1, c); lemma_scan_stmt_ok(b[n - 1], c); }
-}
-
-/// C17.a -- precision, all four clauses at once, for EVERY finding of a function scan:
-///  * its name is not in declared_params (what unit visit passes: the parameters, `self`, `request` and -- for a
-///    fixture -- the function's own name; lemma_C17_a_declared_has_params below),
-///  * it is not recorded in local_vars with a line STRICTLY SMALLER than the line of the use (which bindings are
-///    recorded, and with which line: locals_body; lemma_C17_a_bound_once_protected / FINDING below),
-///  * it is not a name of the file's `imports` entry (module-level names: they are recorded with line 0 and every
-///    use is on a line >= 1),
-///  * is_available_fixture holds for it: some registered definition of that name is visible from the file,
-/// and it is filed under the scanned file with the scanned function's name and line.
-//@tags C17
-pub proof fn lemma_C17_a_precision(body: Seq<Stmt>, file: PV, li: Seq<usize>, declared: Set<Seq<char>>, fname: Seq<char>, fline: usize,
-                                   defs: Map<Seq<char>, Seq<DefV>>, imps: Set<Seq<char>>, i: int)
-    requires is_line_index(ints(li)), li.len() <= usize::MAX,
-        0 <= i < scan_fn(body, file, li, declared, fname, fline, defs, imps).len(),
-    ensures ({
-        let u = scan_fn(body, file, li, declared, fname, fline, defs, imps)[i];
-        let locals = fn_locals(body, li, imps);
-        &&& !declared.contains(u.name)
-        &&& !(locals.contains_key(u.name) && locals[u.name] < u.line)
-        &&& !imps.contains(u.name)
-        &&& op_is_available(bucket(defs, u.name), file)
-        &&& bucket(defs, u.name).len() > 0
-        &&& u.file == file && u.function_name == fname && u.function_line == fline
-    }),
-{
-    let c = fn_ctx(body, file, li, declared, fname, fline, defs, imps);
-    lemma_scan_body_ok(body, body.len() as int, c);
-    let u = scan_fn(body, file, li, declared, fname, fline, defs, imps)[i];
-    assert(entry_ok(u, c));
-    if imps.contains(u.name) { assert(c.locals[u.name] == 0); }
-}
-/// ... a name no fixture carries is never flagged (empty bucket)
-//@tags C17
-pub proof fn lemma_C17_a_unknown_name_never_flagged(n: AExprName, c: ScanV)
-    requires bucket(c.defs, idv(&n.id)).len() == 0,
-    ensures !name_flag(n, c), scan_expr(Expr::Name(n), c).len() == 0,
-{
-}
-/// ... what unit visit hands over as declared_params contains every parameter name (positional-only, ordinary,
-/// keyword-only -- NOT *args / **kwargs), `self` and `request`; for a fixture also the function's own name
-//@tags C17
-pub proof fn lemma_declared_of_has(ps: Seq<AArg>, n: int, base: Set<Seq<char>>, k: int)
-    requires 0 <= k < n <= ps.len(),
-    ensures declared_of(ps, n, base).contains(pname(ps[k])),
-        forall|x: Seq<char>| base.contains(x) ==> declared_of(ps, n, base).contains(x),
-    decreases n
-{
-    if k < n - 1 { lemma_declared_of_has(ps, n - 1, base, k); }
-    else { lemma_declared_of_base(ps, n - 1, base); }
-}
-//@tags C17
-pub proof fn lemma_declared_of_base(ps: Seq<AArg>, n: int, base: Set<Seq<char>>)
-    ensures forall|x: Seq<char>| base.contains(x) ==> declared_of(ps, n, base).contains(x),
-    decreases n
-{
-    if 0 < n <= ps.len() { lemma_declared_of_base(ps, n - 1, base); }
-}
-//@tags C17
-pub proof fn lemma_C17_a_declared_has_params(fname: Seq<char>, a: AArguments, k: int)
-    requires 0 <= k < all_params(a).len(),
-    ensures declared_test(a).contains(pname(all_params(a)[k])), declared_fixture(fname, a).contains(pname(all_params(a)[k])),
-        declared_test(a).contains("self"@), declared_test(a).contains("request"@),
-        declared_fixture(fname, a).contains("self"@), declared_fixture(fname, a).contains("request"@), declared_fixture(fname, a).contains(fname),
-{
-    let ps = all_params(a);
-    let b1 = Set::<Seq<char>>::empty().insert("self"@).insert("request"@);
-    let b2 = b1.insert(fname);
-    lemma_declared_of_has(ps, ps.len() as int, b1, k);
-    lemma_declared_of_has(ps, ps.len() as int, b2, k);
-    assert(b1.contains("self"@) && b1.contains("request"@));
-    assert(b2.contains("self"@) && b2.contains("request"@) && b2.contains(fname));
-}
-
-// ---- which bindings protect a use: the names collect_local_variables records -------------------------------------
-pub open spec fn with_names(items: Seq<AWithItem>, n: int) -> Set<Seq<char>>
-    decreases n
-{
-    if n <= 0 || n > items.len() { Set::empty() } else {
-        match items[n - 1].optional_vars { Some(v) => with_names(items, n - 1).union(target_names(*v)), None => with_names(items, n - 1) }
-    }
-}
-/// every name collect_local_variables (re)binds anywhere inside statement s
-pub open spec fn binds_stmt(s: Stmt) -> Set<Seq<char>>
-    decreases s, 0int
-{
-    match s {
-        Stmt::Assign(x) => targets_from(x.targets@, 0),
-        Stmt::AnnAssign(x) => target_names(*x.target),
-        Stmt::AugAssign(x) => target_names(*x.target),
-        Stmt::For(x) => target_names(*x.target).union(binds_body(x.body@, x.body@.len() as int)),
-        Stmt::AsyncFor(x) => target_names(*x.target).union(binds_body(x.body@, x.body@.len() as int)),
-        Stmt::While(x) => binds_body(x.body@, x.body@.len() as int),
-        Stmt::If(x) => binds_body(x.body@, x.body@.len() as int).union(binds_body(x.orelse@, x.orelse@.len() as int)),
-        Stmt::With(x) => with_names(x.items@, x.items@.len() as int).union(binds_body(x.body@, x.body@.len() as int)),
-        Stmt::AsyncWith(x) => with_names(x.items@, x.items@.len() as int).union(binds_body(x.body@, x.body@.len() as int)),
-        Stmt::Try(x) => binds_body(x.body@, x.body@.len() as int).union(binds_body(x.orelse@, x.orelse@.len() as int)).union(binds_body(x.finalbody@, x.finalbody@.len() as int)),
-        _ => Set::empty(),
-    }
-}
-pub open spec fn binds_body(b: Seq<Stmt>, n: int) -> Set<Seq<char>>
-    decreases b, n
-{
-    if n <= 0 || n > b.len() { Set::empty() } else { binds_body(b, n - 1).union(binds_stmt(b[n - 1])) }
-}
-/// "entry k of m2 is entry k of m1" (both absent, or both present with the same line)
-pub open spec fn same_at(m1: Map<Seq<char>, usize>, m2: Map<Seq<char>, usize>, k: Seq<char>) -> bool {
-    m1.contains_key(k) == m2.contains_key(k) && (m1.contains_key(k) ==> m1[k] == m2[k])
-}
-//@tags C17
-pub proof fn lemma_with_bind_frame(items: Seq<AWithItem>, n: int, m: Map<Seq<char>, usize>, line: usize, k: Seq<char>)
-    requires !with_names(items, n).contains(k),
-    ensures same_at(m, with_bind(items, n, m, line), k),
-    decreases n
-{
-    if 0 < n <= items.len() { lemma_with_bind_frame(items, n - 1, m, line, k); }
-}
-/// a statement that binds k nowhere leaves k's entry alone
-//@tags C17
-pub proof fn lemma_locals_stmt_frame(s: Stmt, li: Seq<usize>, m: Map<Seq<char>, usize>, k: Seq<char>)
-    requires !binds_stmt(s).contains(k),
-    ensures same_at(m, locals_stmt(s, li, m), k),
-    decreases s, 0int
-{
-    match s {
-        Stmt::For(x) => { lemma_locals_body_frame(x.body@, x.body@.len() as int, li, bind_all(m, target_names(*x.target), vline(li, r_start(x.range))), k); }
-        Stmt::AsyncFor(x) => { lemma_locals_body_frame(x.body@, x.body@.len() as int, li, bind_all(m, target_names(*x.target), vline(li, r_start(x.range))), k); }
-        Stmt::While(x) => { lemma_locals_body_frame(x.body@, x.body@.len() as int, li, m, k); }
-        Stmt::If(x) => {
-            let m1 = locals_body(x.body@, x.body@.len() as int, li, m);
-            lemma_locals_body_frame(x.body@, x.body@.len() as int, li, m, k);
-            lemma_locals_body_frame(x.orelse@, x.orelse@.len() as int, li, m1, k);
-        }
-        Stmt::With(x) => {
-            let m1 = with_bind(x.items@, x.items@.len() as int, m, vline(li, r_start(x.range)));
-            lemma_with_bind_frame(x.items@, x.items@.len() as int, m, vline(li, r_start(x.range)), k);
-            lemma_locals_body_frame(x.body@, x.body@.len() as int, li, m1, k);
-        }
-        Stmt::AsyncWith(x) => {
-            let m1 = with_bind(x.items@, x.items@.len() as int, m, vline(li, r_start(x.range)));
-            lemma_with_bind_frame(x.items@, x.items@.len() as int, m, vline(li, r_start(x.range)), k);
-            lemma_locals_body_frame(x.body@, x.body@.len() as int, li, m1, k);
-        }
-        Stmt::Try(x) => {
-            let m1 = locals_body(x.body@, x.body@.len() as int, li, m);
-            let m2 = locals_body(x.orelse@, x.orelse@.len() as int, li, m1);
-            lemma_locals_body_frame(x.body@, x.body@.len() as int, li, m, k);
-            lemma_locals_body_frame(x.orelse@, x.orelse@.len() as int, li, m1, k);
-            lemma_locals_body_frame(x.finalbody@, x.finalbody@.len() as int, li, m2, k);
-        }
-        _ => {}
-    }
-}
-//@tags C17
-pub proof fn lemma_locals_body_frame(b: Seq<Stmt>, n: int, li: Seq<usize>, m: Map<Seq<char>, usize>, k: Seq<char>)
-    requires !binds_body(b, n).contains(k),
-    ensures same_at(m, locals_body(b, n, li, m), k),
-    decreases b, n
-{
-    if 0 < n <= b.len() {
-        lemma_locals_body_frame(b, n - 1, li, m, k);
-        lemma_locals_stmt_frame(b[n - 1], li, locals_body(b, n - 1, li, m), k);
-    }
-}
-/// a top-level statement of the function body that binds k DIRECTLY (`k = ..`, `k: T = ..`, `k += ..`, also as an
-/// element of a tuple / list target)
-pub open spec fn binds_directly(s: Stmt, k: Seq<char>) -> bool {
-    match s {
-        Stmt::Assign(x) => targets_from(x.targets@, 0).contains(k),
-        Stmt::AnnAssign(x) => target_names(*x.target).contains(k),
-        Stmt::AugAssign(x) => target_names(*x.target).contains(k),
-        _ => false,
-    }
-}
-pub open spec fn stmt_start(s: Stmt) -> TextRange {
-    match s { Stmt::Assign(x) => x.range, Stmt::AnnAssign(x) => x.range, Stmt::AugAssign(x) => x.range, _ => arbitrary() }
-}
-//@tags C17
-pub proof fn lemma_locals_after(b: Seq<Stmt>, j: int, n: int, li: Seq<usize>, m: Map<Seq<char>, usize>, k: Seq<char>)
-    requires 0 <= j < n <= b.len(), binds_directly(b[j], k),
-        forall|i: int| j < i < n ==> !binds_stmt(#[trigger] b[i]).contains(k),
-    ensures locals_body(b, n, li, m).contains_key(k), locals_body(b, n, li, m)[k] == vline(li, r_start(stmt_start(b[j]))),
-    decreases n
-{
-    let m1 = locals_body(b, n - 1, li, m);
-    assert(locals_body(b, n, li, m) == locals_stmt(b[n - 1], li, m1));
-    if n - 1 > j {
-        lemma_locals_after(b, j, n - 1, li, m, k);
-        lemma_locals_stmt_frame(b[n - 1], li, m1, k);
-    } else {
-        match b[j] {
-            Stmt::Assign(x) => { assert(locals_stmt(b[j], li, m1) == bind_all(m1, targets_from(x.targets@, 0), vline(li, r_start(x.range)))); }
-            Stmt::AnnAssign(x) => { assert(locals_stmt(b[j], li, m1) == bind_all(m1, target_names(*x.target), vline(li, r_start(x.range)))); }
-            Stmt::AugAssign(x) => { assert(locals_stmt(b[j], li, m1) == bind_all(m1, target_names(*x.target), vline(li, r_start(x.range)))); }
-            _ => {}
-        }
-    }
-}
-/// C17.a (locals, positive part): if the LAST statement of the body that binds `k` anywhere is a top-level assignment
-/// at line L (nothing after it rebinds k), then every use of k on a line > L is protected: it is never flagged
-//@tags C17
-pub proof fn lemma_C17_a_bound_once_protected(body: Seq<Stmt>, j: int, file: PV, li: Seq<usize>, declared: Set<Seq<char>>, fname: Seq<char>,
-        fline: usize, defs: Map<Seq<char>, Seq<DefV>>, imps: Set<Seq<char>>, n: AExprName)
-    requires 0 <= j < body.len(), binds_directly(body[j], idv(&n.id)),
-        forall|i: int| j < i < body.len() ==> !binds_stmt(#[trigger] body[i]).contains(idv(&n.id)),
-        vline(li, r_start(stmt_start(body[j]))) < vline(li, r_start(n.range)),
-    ensures !name_flag(n, fn_ctx(body, file, li, declared, fname, fline, defs, imps)),
-{
-    lemma_locals_after(body, j, body.len() as int, li, Map::empty(), idv(&n.id));
-}
-/// FINDING (proved): "a local variable bound on an earlier line" is NOT always protected -- local_vars keeps ONE line
-/// per name and a later binding REPLACES it.  If the last statement binding k is at line L3, a use of k on a line
-/// <= L3 is flagged (when k is an available fixture name, not declared, not a module-level name) EVEN IF k was
-/// also bound on a line L1 before the use:      x = 1 (L1) / print(x) (L2) / x = 2 (L3),  L1 < L2 <= L3
-//@tags C17
-pub proof fn lemma_C17_FINDING_later_rebinding_exposes_earlier_use(body: Seq<Stmt>, j1: int, j3: int, file: PV, li: Seq<usize>,
-        declared: Set<Seq<char>>, fname: Seq<char>, fline: usize, defs: Map<Seq<char>, Seq<DefV>>, imps: Set<Seq<char>>, n: AExprName)
-    requires 0 <= j1 < j3 < body.len(),
-        binds_directly(body[j1], idv(&n.id)), binds_directly(body[j3], idv(&n.id)),
-        forall|i: int| j3 < i < body.len() ==> !binds_stmt(#[trigger] body[i]).contains(idv(&n.id)),
-        vline(li, r_start(stmt_start(body[j1]))) < vline(li, r_start(n.range)),              // bound on an EARLIER line
-        vline(li, r_start(n.range)) <= vline(li, r_start(stmt_start(body[j3]))),             // and again on a later one
-        !declared.contains(idv(&n.id)), !imps.contains(idv(&n.id)), op_is_available(bucket(defs, idv(&n.id)), file),
-    ensures name_flag(n, fn_ctx(body, file, li, declared, fname, fline, defs, imps)),
-        scan_expr(Expr::Name(n), fn_ctx(body, file, li, declared, fname, fline, defs, imps))
-            == seq![name_entry(n, fn_ctx(body, file, li, declared, fname, fline, defs, imps))],
-{
-    lemma_locals_after(body, j3, body.len() as int, li, Map::empty(), idv(&n.id));
-}
-
-// ---- (b) completeness for the plain uses the scanner visits -----------------------------------------------------
-/// the Name node n occurs in e as a PLAIN USE: e itself, a call target or positional argument, an attribute base, a
-/// binary / unary operand, a comparison operand, a subscript value or index, a list / tuple element, a dict key or
-/// value, an await operand -- nested to any depth through these forms only
-pub open spec fn plain_in_expr(e: Expr, n: AExprName) -> bool
-    decreases e, 0int
-{
-    match e {
-        Expr::Name(x) => x == n,
-        Expr::Call(x) => plain_in_expr(*x.func, n) || plain_in_exprs(x.args@, x.args@.len() as int, n),
-        Expr::Attribute(x) => plain_in_expr(*x.value, n),
-        Expr::BinOp(x) => plain_in_expr(*x.left, n) || plain_in_expr(*x.right, n),
-        Expr::UnaryOp(x) => plain_in_expr(*x.operand, n),
-        Expr::Compare(x) => plain_in_expr(*x.left, n) || plain_in_exprs(x.comparators@, x.comparators@.len() as int, n),
-        Expr::Subscript(x) => plain_in_expr(*x.value, n) || plain_in_expr(*x.slice, n),
-        Expr::List(x) => plain_in_exprs(x.elts@, x.elts@.len() as int, n),
-        Expr::Tuple(x) => plain_in_exprs(x.elts@, x.elts@.len() as int, n),
-        Expr::Dict(x) => plain_in_keys(x.keys@, x.keys@.len() as int, n) || plain_in_exprs(x.values@, x.values@.len() as int, n),
-        Expr::Await(x) => plain_in_expr(*x.value, n),
-        _ => false,
-    }
-}
-pub open spec fn plain_in_exprs(es: Seq<Expr>, k: int, n: AExprName) -> bool
-    decreases es, k
-{
-    if k <= 0 || k > es.len() { false } else { plain_in_exprs(es, k - 1, n) || plain_in_expr(es[k - 1], n) }
-}
-pub open spec fn plain_in_keys(ks: Seq<Option<Expr>>, k: int, n: AExprName) -> bool
-    decreases ks, k
-{
-    if k <= 0 || k > ks.len() { false } else {
-        plain_in_keys(ks, k - 1, n) || (match ks[k - 1] { Some(e) => plain_in_expr(e, n), None => false })
-    }
-}
-pub open spec fn plain_in_items(items: Seq<AWithItem>, k: int, n: AExprName) -> bool
-    decreases k
-{
-    if k <= 0 || k > items.len() { false } else { plain_in_items(items, k - 1, n) || plain_in_expr(items[k - 1].context_expr, n) }
-}
-pub open spec fn plain_in_opt(o: Option<Box<Expr>>, n: AExprName) -> bool {
-    match o { Some(b) => plain_in_expr(*b, n), None => false }
-}
-/// ... in an ORDINARY STATEMENT: an expression statement, the value of an assignment / augmented assignment, a
-/// returned value, the test of if / while / assert (and the assert message), the iterable of a for, the context
-/// expression of a with, and -- recursively -- the statements of if bodies and else-branches and of while / for /
-/// with bodies (sync and async)
-pub open spec fn plain_in_stmt(s: Stmt, n: AExprName) -> bool
-    decreases s, 0int
-{
-    match s {
-        Stmt::Expr(x) => plain_in_expr(*x.value, n),
-        Stmt::Assign(x) => plain_in_expr(*x.value, n),
-        Stmt::AugAssign(x) => plain_in_expr(*x.value, n),
-        Stmt::Return(x) => plain_in_opt(x.value, n),
-        Stmt::If(x) => plain_in_expr(*x.test, n) || plain_in_body(x.body@, x.body@.len() as int, n) || plain_in_body(x.orelse@, x.orelse@.len() as int, n),
-        Stmt::While(x) => plain_in_expr(*x.test, n) || plain_in_body(x.body@, x.body@.len() as int, n),
-        Stmt::For(x) => plain_in_expr(*x.iter, n) || plain_in_body(x.body@, x.body@.len() as int, n),
-        Stmt::With(x) => plain_in_items(x.items@, x.items@.len() as int, n) || plain_in_body(x.body@, x.body@.len() as int, n),
-        Stmt::AsyncFor(x) => plain_in_expr(*x.iter, n) || plain_in_body(x.body@, x.body@.len() as int, n),
-        Stmt::AsyncWith(x) => plain_in_items(x.items@, x.items@.len() as int, n) || plain_in_body(x.body@, x.body@.len() as int, n),
-        Stmt::Assert(x) => plain_in_expr(*x.test, n) || plain_in_opt(x.msg, n),
-        _ => false,
-    }
-}
-pub open spec fn plain_in_body(b: Seq<Stmt>, k: int, n: AExprName) -> bool
-    decreases b, k
-{
-    if k <= 0 || k > b.len() { false } else { plain_in_body(b, k - 1, n) || plain_in_stmt(b[k - 1], n) }
-}
-pub open spec fn has(s: Seq<UndV>, u: UndV) -> bool { exists|i: int| 0 <= i < s.len() && s[i] == u }
-//@tags C17
-pub proof fn lemma_has_concat(a: Seq<UndV>, b: Seq<UndV>, u: UndV)
-    ensures has(a, u) ==> has(a + b, u), has(b, u) ==> has(a + b, u),
-{
-    if has(a, u) { let i = choose|i: int| 0 <= i < a.len() && a[i] == u; assert((a + b)[i] == u); }
-    if has(b, u) { let i = choose|i: int| 0 <= i < b.len() && b[i] == u; assert((a + b)[a.len() + i] == u); }
-}
-//@tags C17
-pub proof fn lemma_plain_expr_flagged(e: Expr, n: AExprName, c: ScanV)
-    requires plain_in_expr(e, n), name_flag(n, c),
-    ensures has(scan_expr(e, c), name_entry(n, c)),
-    decreases e, 0int
-{
-    let u = name_entry(n, c);
-    match e {
-        Expr::Name(x) => { assert(scan_expr(e, c)[0] == u); }
-        Expr::Call(x) => {
-            let a = scan_expr(*x.func, c); let b = scan_exprs(x.args@, x.args@.len() as int, c);
-            if plain_in_expr(*x.func, n) { lemma_plain_expr_flagged(*x.func, n, c); } else { lemma_plain_exprs_flagged(x.args@, x.args@.len() as int, n, c); }
-            lemma_has_concat(a, b, u);
-        }
-        Expr::Attribute(x) => { lemma_plain_expr_flagged(*x.value, n, c); }
-        Expr::BinOp(x) => {
-            if plain_in_expr(*x.left, n) { lemma_plain_expr_flagged(*x.left, n, c); } else { lemma_plain_expr_flagged(*x.right, n, c); }
-            lemma_has_concat(scan_expr(*x.left, c), scan_expr(*x.right, c), u);
-        }
-        Expr::UnaryOp(x) => { lemma_plain_expr_flagged(*x.operand, n, c); }
-        Expr::Compare(x) => {
-            if plain_in_expr(*x.left, n) { lemma_plain_expr_flagged(*x.left, n, c); } else { lemma_plain_exprs_flagged(x.comparators@, x.comparators@.len() as int, n, c); }
-            lemma_has_concat(scan_expr(*x.left, c), scan_exprs(x.comparators@, x.comparators@.len() as int, c), u);
-        }
-        Expr::Subscript(x) => {
-            if plain_in_expr(*x.value, n) { lemma_plain_expr_flagged(*x.value, n, c); } else { lemma_plain_expr_flagged(*x.slice, n, c); }
-            lemma_has_concat(scan_expr(*x.value, c), scan_expr(*x.slice, c), u);
-        }
-        Expr::List(x) => { lemma_plain_exprs_flagged(x.elts@, x.elts@.len() as int, n, c); }
-        Expr::Tuple(x) => { lemma_plain_exprs_flagged(x.elts@, x.elts@.len() as int, n, c); }
-        Expr::Dict(x) => {
-            if plain_in_keys(x.keys@, x.keys@.len() as int, n) { lemma_plain_keys_flagged(x.keys@, x.keys@.len() as int, n, c); }
-            else { lemma_plain_exprs_flagged(x.values@, x.values@.len() as int, n, c); }
-            lemma_has_concat(scan_keys(x.keys@, x.keys@.len() as int, c), scan_exprs(x.values@, x.values@.len() as int, c), u);
-        }
-        Expr::Await(x) => { lemma_plain_expr_flagged(*x.value, n, c); }
-        _ => {}
-    }
-}
-//@tags C17
-pub proof fn lemma_plain_exprs_flagged(es: Seq<Expr>, k: int, n: AExprName, c: ScanV)
-    requires plain_in_exprs(es, k, n), name_flag(n, c),
-    ensures has(scan_exprs(es, k, c), name_entry(n, c)),
-    decreases es, k
-{
-    if plain_in_exprs(es, k - 1, n) { lemma_plain_exprs_flagged(es, k - 1, n, c); } else { lemma_plain_expr_flagged(es[k - 1], n, c); }
-    lemma_has_concat(scan_exprs(es, k - 1, c), scan_expr(es[k - 1], c), name_entry(n, c));
-}
-//@tags C17
-pub proof fn lemma_plain_keys_flagged(ks: Seq<Option<Expr>>, k: int, n: AExprName, c: ScanV)
-    requires plain_in_keys(ks, k, n), name_flag(n, c),
-    ensures has(scan_keys(ks, k, c), name_entry(n, c)),
-    decreases ks, k
-{
-    let last = match ks[k - 1] { Some(e) => scan_expr(e, c), None => Seq::<UndV>::empty() };
-    if plain_in_keys(ks, k - 1, n) { lemma_plain_keys_flagged(ks, k - 1, n, c); }
-    else { match ks[k - 1] { Some(e) => { lemma_plain_expr_flagged(e, n, c); } None => {} } }
-    lemma_has_concat(scan_keys(ks, k - 1, c), last, name_entry(n, c));
-}
-//@tags C17
-pub proof fn lemma_plain_items_flagged(items: Seq<AWithItem>, k: int, n: AExprName, c: ScanV)
-    requires plain_in_items(items, k, n), name_flag(n, c),
-    ensures has(scan_items(items, k, c), name_entry(n, c)),
-    decreases k
-{
-    if plain_in_items(items, k - 1, n) { lemma_plain_items_flagged(items, k - 1, n, c); } else { lemma_plain_expr_flagged(items[k - 1].context_expr, n, c); }
-    lemma_has_concat(scan_items(items, k - 1, c), scan_expr(items[k - 1].context_expr, c), name_entry(n, c));
-}
-//@tags C17
-pub proof fn lemma_plain_stmt_flagged(s: Stmt, n: AExprName, c: ScanV)
-    requires plain_in_stmt(s, n), name_flag(n, c),
-    ensures has(scan_stmt(s, c), name_entry(n, c)),
-    decreases s, 0int
-{
-    let u = name_entry(n, c);
-    match s {
-        Stmt::Expr(x) => { lemma_plain_expr_flagged(*x.value, n, c); }
-        Stmt::Assign(x) => { lemma_plain_expr_flagged(*x.value, n, c); }
-        Stmt::AugAssign(x) => { lemma_plain_expr_flagged(*x.value, n, c); }
-        Stmt::Return(x) => { match x.value { Some(v) => { lemma_plain_expr_flagged(*v, n, c); } None => {} } }
-        Stmt::If(x) => {
-            let a = scan_expr(*x.test, c); let b = scan_body(x.body@, x.body@.len() as int, c); let d = scan_body(x.orelse@, x.orelse@.len() as int, c);
-            if plain_in_expr(*x.test, n) { lemma_plain_expr_flagged(*x.test, n, c); }
-            else if plain_in_body(x.body@, x.body@.len() as int, n) { lemma_plain_body_flagged(x.body@, x.body@.len() as int, n, c); }
-            else { lemma_plain_body_flagged(x.orelse@, x.orelse@.len() as int, n, c); }
-            lemma_has_concat(a, b, u); lemma_has_concat(a + b, d, u);
-        }
-        Stmt::While(x) => {
-            if plain_in_expr(*x.test, n) { lemma_plain_expr_flagged(*x.test, n, c); } else { lemma_plain_body_flagged(x.body@, x.body@.len() as int, n, c); }
-            lemma_has_concat(scan_expr(*x.test, c), scan_body(x.body@, x.body@.len() as int, c), u);
-        }
-        Stmt::For(x) => {
-            if plain_in_expr(*x.iter, n) { lemma_plain_expr_flagged(*x.iter, n, c); } else { lemma_plain_body_flagged(x.body@, x.body@.len() as int, n, c); }
-            lemma_has_concat(scan_expr(*x.iter, c), scan_body(x.body@, x.body@.len() as int, c), u);
-        }
-        Stmt::With(x) => {
-            if plain_in_items(x.items@, x.items@.len() as int, n) { lemma_plain_items_flagged(x.items@, x.items@.len() as int, n, c); } else { lemma_plain_body_flagged(x.body@, x.body@.len() as int, n, c); }
-            lemma_has_concat(scan_items(x.items@, x.items@.len() as int, c), scan_body(x.body@, x.body@.len() as int, c), u);
-        }
-        Stmt::AsyncFor(x) => {
-            if plain_in_expr(*x.iter, n) { lemma_plain_expr_flagged(*x.iter, n, c); } else { lemma_plain_body_flagged(x.body@, x.body@.len() as int, n, c); }
-            lemma_has_concat(scan_expr(*x.iter, c), scan_body(x.body@, x.body@.len() as int, c), u);
-        }
-        Stmt::AsyncWith(x) => {
-            if plain_in_items(x.items@, x.items@.len() as int, n) { lemma_plain_items_flagged(x.items@, x.items@.len() as int, n, c); } else { lemma_plain_body_flagged(x.body@, x.body@.len() as int, n, c); }
-            lemma_has_concat(scan_items(x.items@, x.items@.len() as int, c), scan_body(x.body@, x.body@.len() as int, c), u);
-        }
-        Stmt::Assert(x) => {
-            if plain_in_expr(*x.test, n) { lemma_plain_expr_flagged(*x.test, n, c); } else { match x.msg { Some(m) => { lemma_plain_expr_flagged(*m, n, c); } None => {} } }
-            lemma_has_concat(scan_expr(*x.test, c), scan_opt(x.msg, c), u);
-        }
-        _ => {}
-    }
-}
-//@tags C17
-pub proof fn lemma_plain_body_flagged(b: Seq<Stmt>, k: int, n: AExprName, c: ScanV)
-    requires plain_in_body(b, k, n), name_flag(n, c),
-    ensures has(scan_body(b, k, c), name_entry(n, c)),
-    decreases b, k
-{
-    if plain_in_body(b, k - 1, n) { lemma_plain_body_flagged(b, k - 1, n, c); } else { lemma_plain_stmt_flagged(b[k - 1], n, c); }
-    lemma_has_concat(scan_body(b, k - 1, c), scan_stmt(b[k - 1], c), name_entry(n, c));
-}
-/// C17.b -- completeness: a Name that occurs as a plain use (plain_in_*) in the body of a scanned function, is not a
-/// declared parameter, is not recorded as a local bound on an earlier line (hence not a module-level name) and
-/// carries a fixture visible from the file IS flagged, with exactly: line = line of range.start, start_char = column
-/// of range.start, end_char = column of range.end (byte columns of the line index, C15), the file, the function's
-/// name and the function's line
-//@tags C17
-pub proof fn lemma_C17_b_plain_use_flagged(body: Seq<Stmt>, file: PV, li: Seq<usize>, declared: Set<Seq<char>>, fname: Seq<char>, fline: usize,
-                                          defs: Map<Seq<char>, Seq<DefV>>, imps: Set<Seq<char>>, n: AExprName)
-    requires plain_in_body(body, body.len() as int, n),
-        !declared.contains(idv(&n.id)),
-        !local_in_scope(fn_locals(body, li, imps), idv(&n.id), vline(li, r_start(n.range))),
-        op_is_available(bucket(defs, idv(&n.id)), file),
-    ensures has(scan_fn(body, file, li, declared, fname, fline, defs, imps),
-        UndV { name: idv(&n.id), file, line: op_line(ints(li), r_start(n.range) as int) as usize,
-               start_char: op_col(ints(li), r_start(n.range) as int) as usize, end_char: op_col(ints(li), r_end(n.range) as int) as usize,
-               function_name: fname, function_line: fline }),
-{
-    let c = fn_ctx(body, file, li, declared, fname, fline, defs, imps);
-    lemma_plain_body_flagged(body, body.len() as int, n, c);
-}
-/// the forms of the property text one by one (each is an instance of plain_in_expr; `e` may itself sit anywhere a
-/// plain use may sit): call target, positional argument, attribute base, operands, subscript, collection elements
-//@tags C17
-pub proof fn lemma_C17_b_forms(e: Expr, n: AExprName, i: int)
-    ensures
-        match e {
-            Expr::Call(x) => (*x.func == Expr::Name(n) ==> plain_in_expr(e, n))
-                && (0 <= i < x.args@.len() && x.args@[i] == Expr::Name(n) ==> plain_in_expr(e, n)),
-            Expr::Attribute(x) => *x.value == Expr::Name(n) ==> plain_in_expr(e, n),
-            Expr::BinOp(x) => *x.left == Expr::Name(n) || *x.right == Expr::Name(n) ==> plain_in_expr(e, n),
-            Expr::UnaryOp(x) => *x.operand == Expr::Name(n) ==> plain_in_expr(e, n),
-            Expr::Compare(x) => (*x.left == Expr::Name(n) ==> plain_in_expr(e, n))
-                && (0 <= i < x.comparators@.len() && x.comparators@[i] == Expr::Name(n) ==> plain_in_expr(e, n)),
-            Expr::Subscript(x) => *x.value == Expr::Name(n) || *x.slice == Expr::Name(n) ==> plain_in_expr(e, n),
-            Expr::List(x) => 0 <= i < x.elts@.len() && x.elts@[i] == Expr::Name(n) ==> plain_in_expr(e, n),
-            Expr::Tuple(x) => 0 <= i < x.elts@.len() && x.elts@[i] == Expr::Name(n) ==> plain_in_expr(e, n),
-            Expr::Dict(x) => (0 <= i < x.values@.len() && x.values@[i] == Expr::Name(n) ==> plain_in_expr(e, n))
-                && (0 <= i < x.keys@.len() && x.keys@[i] == Some(Expr::Name(n)) ==> plain_in_expr(e, n)),
-            Expr::Await(x) => *x.value == Expr::Name(n) ==> plain_in_expr(e, n),
-            _ => true,
-        },
-{
-    assert(plain_in_expr(Expr::Name(n), n));
-    match e {
-        Expr::Call(x) => { if 0 <= i < x.args@.len() && x.args@[i] == Expr::Name(n) { lemma_plain_exprs_at(x.args@, x.args@.len() as int, i, n); } }
-        Expr::Compare(x) => { if 0 <= i < x.comparators@.len() && x.comparators@[i] == Expr::Name(n) { lemma_plain_exprs_at(x.comparators@, x.comparators@.len() as int, i, n); } }
-        Expr::List(x) => { if 0 <= i < x.elts@.len() && x.elts@[i] == Expr::Name(n) { lemma_plain_exprs_at(x.elts@, x.elts@.len() as int, i, n); } }
-        Expr::Tuple(x) => { if 0 <= i < x.elts@.len() && x.elts@[i] == Expr::Name(n) { lemma_plain_exprs_at(x.elts@, x.elts@.len() as int, i, n); } }
-        Expr::Dict(x) => {
-            if 0 <= i < x.values@.len() && x.values@[i] == Expr::Name(n) { lemma_plain_exprs_at(x.values@, x.values@.len() as int, i, n); }
-            if 0 <= i < x.keys@.len() && x.keys@[i] == Some(Expr::Name(n)) { lemma_plain_keys_at(x.keys@, x.keys@.len() as int, i, n); }
-        }
-        _ => {}
-    }
-}
-//@tags C17
-pub proof fn lemma_plain_exprs_at(es: Seq<Expr>, k: int, i: int, n: AExprName)
-    requires 0 <= i < k <= es.len(), plain_in_expr(es[i], n),
-    ensures plain_in_exprs(es, k, n),
-    decreases k
-{
-    if i < k - 1 { lemma_plain_exprs_at(es, k - 1, i, n); }
-}
-//@tags C17
-pub proof fn lemma_plain_keys_at(ks: Seq<Option<Expr>>, k: int, i: int, n: AExprName)
-    requires 0 <= i < k <= ks.len(), ks[i] is Some, plain_in_expr(ks[i]->0, n),
-    ensures plain_in_keys(ks, k, n),
-    decreases k
-{
-    if i < k - 1 { lemma_plain_keys_at(ks, k - 1, i, n); }
-}
-/// a statement of a body at any position (plain_in_body is "some statement of the list")
-//@tags C17
-pub proof fn lemma_plain_body_at(b: Seq<Stmt>, k: int, i: int, n: AExprName)
-    requires 0 <= i < k <= b.len(), plain_in_stmt(b[i], n),
-    ensures plain_in_body(b, k, n),
-    decreases k
-{
-    if i < k - 1 { lemma_plain_body_at(b, k - 1, i, n); }
-}
-
-// ---- (c) what the scanner does NOT visit (statements of fact) ----------------------------------------------------
-/// expression forms that record nothing and are not descended into, whatever they contain: boolean operators
-/// (`a and b`), walrus, lambda, conditional expressions (`a if c else b`), SET literals, all comprehensions and
-/// generator expressions, yield / yield from, f-strings, constants, starred (`*a`), slices (`x[a:b]`)
-pub open spec fn unvisited_expr_form(e: Expr) -> bool {
-    match e {
-        Expr::BoolOp(_) | Expr::NamedExpr(_) | Expr::Lambda(_) | Expr::IfExp(_) | Expr::Set(_) | Expr::ListComp(_)
-        | Expr::SetComp(_) | Expr::DictComp(_) | Expr::GeneratorExp(_) | Expr::Yield(_) | Expr::YieldFrom(_)
-        | Expr::FormattedValue(_) | Expr::JoinedStr(_) | Expr::Constant(_) | Expr::Starred(_) | Expr::Slice(_) => true,
-        _ => false,
-    }
-}
-//@tags C17
-pub proof fn lemma_C17_c_expr_forms_not_visited(e: Expr, c: ScanV)
-    requires unvisited_expr_form(e),
-    ensures scan_expr(e, c) == Seq::<UndV>::empty(),
-{
-}
-/// keyword arguments of a call are never looked at: two calls with the same callee and positional arguments
-/// record the same findings
-//@tags C17
-pub proof fn lemma_C17_c_call_keywords_not_visited(a: ExprCall, b: ExprCall, c: ScanV)
-    requires a.func == b.func, a.args == b.args,
-    ensures scan_expr(Expr::Call(a), c) == scan_expr(Expr::Call(b), c),
-{
-}
-/// statement forms that record nothing, whatever they contain: annotated assignments (also their value), nested
-/// function / class definitions, del, type aliases, match, raise, try (body, handlers, else, finally) and try*,
-/// imports, global / nonlocal, pass / break / continue
-pub open spec fn unvisited_stmt_form(s: Stmt) -> bool {
-    match s {
-        Stmt::AnnAssign(_) | Stmt::FunctionDef(_) | Stmt::AsyncFunctionDef(_) | Stmt::ClassDef(_) | Stmt::Delete(_)
-        | Stmt::TypeAlias(_) | Stmt::Match(_) | Stmt::Raise(_) | Stmt::Try(_) | Stmt::TryStar(_) | Stmt::Import(_)
-        | Stmt::ImportFrom(_) | Stmt::Global(_) | Stmt::Nonlocal(_) | Stmt::Pass(_) | Stmt::Break(_) | Stmt::Continue(_) => true,
-        _ => false,
-    }
-}
-//@tags C17
-pub proof fn lemma_C17_c_stmt_forms_not_visited(s: Stmt, c: ScanV)
-    requires unvisited_stmt_form(s),
-    ensures scan_stmt(s, c) == Seq::<UndV>::empty(),
-{
-}
-/// parts of visited statements that are never looked at: assignment TARGETS (`fx.attr = 1`, `fx[0] = 1`), the target
-/// and the `else` branch of for loops, the `else` branch of while loops, the `as` targets of with items
-//@tags C17
-pub proof fn lemma_C17_c_stmt_parts_not_visited(a: Stmt, b: Stmt, c: ScanV)
-    requires match (a, b) {
-        (Stmt::Assign(x), Stmt::Assign(y)) => x.value == y.value,
-        (Stmt::AugAssign(x), Stmt::AugAssign(y)) => x.value == y.value,
-        (Stmt::For(x), Stmt::For(y)) => x.iter == y.iter && x.body == y.body,
-        (Stmt::AsyncFor(x), Stmt::AsyncFor(y)) => x.iter == y.iter && x.body == y.body,
-        (Stmt::While(x), Stmt::While(y)) => x.test == y.test && x.body == y.body,
-        _ => false,
-    },
-    ensures scan_stmt(a, c) == scan_stmt(b, c),
-{
-}
-//@tags C17
-pub proof fn lemma_C17_c_with_targets_not_visited(a: Seq<AWithItem>, b: Seq<AWithItem>, k: int, c: ScanV)
-    requires a.len() == b.len(), forall|i: int| 0 <= i < a.len() ==> (#[trigger] a[i]).context_expr == b[i].context_expr,
-    ensures scan_items(a, k, c) == scan_items(b, k, c),
-    decreases k
-{
-    if 0 < k <= a.len() { lemma_C17_c_with_targets_not_visited(a, b, k - 1, c); assert(a[k - 1].context_expr == b[k - 1].context_expr); }
-}
-/// bindings collect_local_variables does NOT record (the statement leaves local_vars as it is): imports, nested def /
-/// class, match, try*, del, global / nonlocal, expression statements (walrus), return, raise, assert, pass ...
-pub open spec fn unrecorded_binding_form(s: Stmt) -> bool {
-    match s {
-        Stmt::Import(_) | Stmt::ImportFrom(_) | Stmt::FunctionDef(_) | Stmt::AsyncFunctionDef(_) | Stmt::ClassDef(_)
-        | Stmt::Match(_) | Stmt::TryStar(_) | Stmt::Delete(_) | Stmt::Global(_) | Stmt::Nonlocal(_) | Stmt::Expr(_)
-        | Stmt::Return(_) | Stmt::Raise(_) | Stmt::Assert(_) | Stmt::TypeAlias(_) | Stmt::Pass(_) | Stmt::Break(_) | Stmt::Continue(_) => true,
-        _ => false,
-    }
-}
-//@tags C17
-pub proof fn lemma_C17_c_bindings_not_recorded(s: Stmt, li: Seq<usize>, m: Map<Seq<char>, usize>)
-    requires unrecorded_binding_form(s),
-    ensures locals_stmt(s, li, m) == m,
-{
-}
-/// ... nor anything inside except handlers (`except E as e:` and the handler bodies), loop `else` branches
-//@tags C17
-pub proof fn lemma_C17_c_handlers_and_loop_else_not_recorded(a: Stmt, b: Stmt, li: Seq<usize>, m: Map<Seq<char>, usize>)
-    requires match (a, b) {
-        (Stmt::Try(x), Stmt::Try(y)) => x.body == y.body && x.orelse == y.orelse && x.finalbody == y.finalbody,
-        (Stmt::For(x), Stmt::For(y)) => x.target == y.target && x.range == y.range && x.body == y.body,
-        (Stmt::AsyncFor(x), Stmt::AsyncFor(y)) => x.target == y.target && x.range == y.range && x.body == y.body,
-        (Stmt::While(x), Stmt::While(y)) => x.body == y.body,
-        _ => false,
-    },
-    ensures locals_stmt(a, li, m) == locals_stmt(b, li, m),
-{
-}
-
-// ---- vacuity guards: each of these must FAIL ---------------------------------------------------------------------
-/// a declared parameter can be flagged
-proof fn canary_C17_declared_param_flagged(n: AExprName, c: ScanV)
-    requires c.declared.contains(idv(&n.id)), op_is_available(bucket(c.defs, idv(&n.id)), c.file), !c.locals.contains_key(idv(&n.id)),
-    ensures scan_expr(Expr::Name(n), c).len() == 1,
-{
-}
-/// a local bound on the SAME line protects the use (the test is strict)
-proof fn canary_C17_same_line_local_protected(n: AExprName, c: ScanV)
-    requires c.locals.contains_key(idv(&n.id)), c.locals[idv(&n.id)] == vline(c.li, r_start(n.range)),
-    ensures !name_flag(n, c),
-{
-}
-/// another file's list changes
-proof fn canary_C17_other_file_list_changes(o: FixtureDatabase, s: FixtureDatabase, f: PV, g: PV, us: Seq<UndV>)
-    requires und_rel(o, s, f, us), g != f, o.undeclared_fixtures.m().contains_key(g), us.len() > 0,
-    ensures s.undeclared_fixtures.m()[g] != o.undeclared_fixtures.m()[g],
-{
-    lemma_und_open(o, s, f, us);
-}
-/// operands of `and` / `or` are scanned
-proof fn canary_C17_boolop_operand_flagged(x: rustpython_parser::ast::ExprBoolOp, n: AExprName, c: ScanV)
-    requires x.values@.len() == 2, x.values@[0] == Expr::Name(n), name_flag(n, c),
-    ensures has(scan_expr(Expr::BoolOp(x), c), name_entry(n, c)),
-{
-}
-/// a name that no fixture carries can be flagged
-proof fn canary_C17_unknown_name_flagged(n: AExprName, c: ScanV)
-    requires !c.declared.contains(idv(&n.id)), !c.locals.contains_key(idv(&n.id)), bucket(c.defs, idv(&n.id)).len() == 0,
-    ensures name_flag(n, c),
-{
-}
-/// the end column is the START column (a zero-width range)
-proof fn canary_C17_end_char_is_start(n: AExprName, c: ScanV)
-    ensures name_entry(n, c).end_char == vcol(c.li, r_start(n.range)),
-{
-}
 
 } // verus!
 fn main() {}
